@@ -1,7 +1,7 @@
 (* Facts about the model of to_hashable (C15). *)
 From Coq Require Import Permutation Sorted.
 From Verif Require Import Base.Prelude Base.PySort Model.PyVal Model.ToHashable Model.ToHashableSpec.
-From Verif Require Import Proofs.PySortFacts Proofs.PyValFacts.
+From Verif Require Import Proofs.PySortFacts Proofs.PyValFacts Proofs.CKeyFacts.
 
 (* ---------- unfolding equations ---------- *)
 Lemma th_atom_eq : forall fp a, to_hashable fp (PA a) = th_atom fp a.
@@ -19,9 +19,10 @@ Proof.
        | KDeque ml => do d <- conv_elems; Ok (conv (tp_seq k) (PTuple [maxlen_val ml; d]))
        | KBytearray => Ok (conv (tp_seq k) (PTuple l))
        | KArray c => Ok (conv (tp_seq k) (PTuple [PStr c; PTuple l]))
-       | KNd _ d sh =>
-           do items <- (if str_eqb d dt_obj then conv_elems else Ok (PTuple l));
-           Ok (conv (tp_seq k) (PTuple [PTuple (map (fun z => PInt z) sh); PStr d; items]))
+       | KNd msk d sh =>
+           do items <- (if str_eqb d dt_obj then conv_elems else Ok (PTuple (if msk then map mfill l else l)));
+           Ok (conv (tp_seq k) (PTuple ([PTuple (map (fun z => PInt z) sh); PStr d; items]
+                                        ++ (if msk then [PTuple (map mbit l)] else []))))
        end).
     rewrite H. reflexivity.
   - change (to_hashable fp (PSetv k l)) with
@@ -37,9 +38,10 @@ Definition seq_body (fp : bool) (k : seqkind) (l : list pyval) : result pyval :=
   | KDeque ml => do d <- conv_elems; Ok (conv (tp_seq k) (PTuple [maxlen_val ml; d]))
   | KBytearray => Ok (conv (tp_seq k) (PTuple l))
   | KArray c => Ok (conv (tp_seq k) (PTuple [PStr c; PTuple l]))
-  | KNd _ d sh =>
-      do items <- (if str_eqb d dt_obj then conv_elems else Ok (PTuple l));
-      Ok (conv (tp_seq k) (PTuple [PTuple (map (fun z => PInt z) sh); PStr d; items]))
+  | KNd msk d sh =>
+      do items <- (if str_eqb d dt_obj then conv_elems else Ok (PTuple (if msk then map mfill l else l)));
+      Ok (conv (tp_seq k) (PTuple ([PTuple (map (fun z => PInt z) sh); PStr d; items]
+                                   ++ (if msk then [PTuple (map mbit l)] else []))))
   end.
 Lemma th_seq : forall fp k l, py_hashable (PSeq k l) = false -> to_hashable fp (PSeq k l) = seq_body fp k l.
 Proof.
@@ -65,12 +67,44 @@ Definition map_body (fp : bool) (k : mapkind) (kvs : list (pyval * pyval)) : res
   | KODict => do d <- hashable_mapping false items; Ok (conv (tp_map k) d)
   | KDefault f => do d <- hashable_mapping true items; Ok (conv (tp_map k) (PTuple [factory_val f; d]))
   | KCounter =>
-      do its <- py_sort item_lt items;
+      do its <- py_sort item_lt (mk_items fp (strip kvs));
       Ok (conv (tp_map k) (PTuple (map (fun it : item => pair_t (fst (fst it)) (snd (fst it))) its)))
   | KDict => do d <- hashable_mapping true items; Ok (conv (tp_map k) d)
   end.
+Lemma filter_items : forall fp kvs,
+  filter (fun it : item => negb (is_zero (snd (fst it)))) (mk_items fp kvs) = mk_items fp (strip kvs).
+Proof.
+  intros fp kvs. unfold mk_items, strip. induction kvs as [|kv kvs IH]; simpl; auto.
+  unfold nzc at 1. destruct (negb (is_zero (snd kv))); simpl; rewrite IH; reflexivity.
+Qed.
 Lemma th_map : forall fp k kvs, to_hashable fp (PMap k kvs) = map_body fp k kvs.
-Proof. reflexivity. Qed.
+Proof.
+  intros fp k kvs. destruct k; try reflexivity.
+  change (to_hashable fp (PMap KCounter kvs)) with
+    (do its <- py_sort item_lt (filter (fun it : item => negb (is_zero (snd (fst it)))) (mk_items fp kvs));
+     Ok (conv (tp_map KCounter) (PTuple (map (fun it : item => pair_t (fst (fst it)) (snd (fst it))) its)))).
+  rewrite filter_items. reflexivity.
+Qed.
+
+Lemma strip_incl : forall kvs kv, In kv (strip kvs) -> In kv kvs.
+Proof. intros kvs kv H. unfold strip in H. apply filter_In in H. tauto. Qed.
+Lemma strip_nonzero : forall kvs kv, In kv (strip kvs) -> is_zero (snd kv) = false.
+Proof. intros kvs kv H. unfold strip in H. apply filter_In in H. destruct H as [_ H]. unfold nzc in H. apply negb_true_iff in H. exact H. Qed.
+Lemma strip_nodup : forall kvs, nodup_by (rel false) (map fst kvs) = true -> nodup_by (rel false) (map fst (strip kvs)) = true.
+Proof.
+  induction kvs as [|kv kvs IH]; simpl; intros H; auto.
+  apply andb_true_iff in H. destruct H as [Hx Ht]. unfold nzc at 1. destruct (negb (is_zero (snd kv))); simpl; auto.
+  rewrite IH by auto. rewrite andb_true_r. apply negb_true_iff in Hx. apply negb_true_iff.
+  destruct (existsb (rel false (fst kv)) (map fst (strip kvs))) eqn:E; auto.
+  apply existsb_exists in E. destruct E as (y & Hy & Hr). apply in_map_iff in Hy. destruct Hy as (kv2 & <- & Hin).
+  assert (existsb (rel false (fst kv)) (map fst kvs) = true); [|congruence].
+  apply existsb_exists. exists (fst kv2). split; auto. apply in_map. apply strip_incl. exact Hin.
+Qed.
+Lemma mk_items_strip_incl : forall fp kvs it, In it (mk_items fp (strip kvs)) -> In it (mk_items fp kvs).
+Proof.
+  intros fp kvs it H. unfold mk_items in *. apply in_map_iff in H. destruct H as (kv & <- & Hin).
+  apply in_map_iff. exists kv. split; auto. apply strip_incl. exact Hin.
+Qed.
 
 (* ---------- mapM ---------- *)
 Lemma mapM_Forall2 {A B} (f : A -> result B) : forall l out,
@@ -154,32 +188,17 @@ Proof. intros x H. destruct x as [a| | | | |]; simpl in H; try discriminate. des
 Lemma ints_hashable : forall sh, forallb py_hashable (map (fun z => PInt z) sh) = true.
 Proof. induction sh; simpl; auto. Qed.
 
-Lemma unmasked_not_maskedc : forall x, unmasked x = true -> is_maskedc x = false.
-Proof. intros x H. destruct x as [a| | | | |]; simpl; auto. destruct a; simpl in *; auto. Qed.
-
-Lemma seq_children : forall k l, wf (PSeq k l) = true -> unmasked (PSeq k l) = true ->
-  Forall (fun x => wf x = true /\ unmasked x = true) l.
+Lemma wf_seq_children : forall sk l, wf (PSeq sk l) = true -> (forall d sh, sk <> KNd true d sh) ->
+  forallb wf l = true.
 Proof.
-  intros k l Hwf Hum. simpl in Hwf. apply andb_true_iff in Hwf. destruct Hwf as [Hwf _].
-  unfold unmasked in Hum. simpl in Hum. rewrite forallb_forall in Hum.
-  apply Forall_forall. intros x Hx. specialize (Hum x Hx). split; auto.
-  assert (Hnm := unmasked_not_maskedc x Hum).
-  destruct k; try (rewrite forallb_forall in Hwf; auto; fail).
-  destruct masked; rewrite forallb_forall in Hwf; auto.
-  specialize (Hwf x Hx). rewrite Hnm in Hwf. exact Hwf.
+  intros sk l Hwf Hsk. simpl in Hwf. apply andb_true_iff in Hwf. destruct Hwf as [Hwf _].
+  destruct sk; auto. destruct masked; auto. exfalso. eapply Hsk; eauto.
 Qed.
 
-Lemma nd_elems_hashable : forall m d l,
-  str_eqb d dt_obj = false ->
-  forallb (fun x => (m && is_maskedc x) || elem_ok d x) l = true ->
-  forallb (fun x => negb (is_maskedc x)) l = true ->
-  forallb py_hashable l = true.
+Lemma elem_ok_scalar : forall d x, str_eqb d dt_obj = false -> elem_ok d x = true ->
+  (is_int x || is_float x || is_boolv x || is_strv x) = true.
 Proof.
-  intros m d l Hd H Hnm. apply forallb_forall. intros x Hx.
-  rewrite forallb_forall in H, Hnm. specialize (H x Hx). specialize (Hnm x Hx).
-  apply negb_true_iff in Hnm. rewrite Hnm, andb_false_r in H. simpl in H.
-  unfold elem_ok, dtype_class in H. rewrite Hd in H.
-  apply scalar_hashable.
+  intros d x Hd H. unfold elem_ok, dtype_class in H. rewrite Hd in H.
   destruct d as [|c0 [|c d']]; try discriminate.
   destruct (Ascii.eqb c "i" || Ascii.eqb c "u"); [rewrite H; auto|].
   destruct (Ascii.eqb c "f"); [rewrite H; rewrite ?orb_true_r; auto|].
@@ -188,35 +207,57 @@ Proof.
   discriminate.
 Qed.
 
-Theorem key_hashable : forall fp v k,
-  wf v = true -> unmasked v = true -> no_pandas v = true ->
-  to_hashable fp v = Ok k -> py_hashable k = true.
+Lemma nd_fill_hashable : forall m d l,
+  str_eqb d dt_obj = false ->
+  forallb (fun x => (m && is_maskedc x) || elem_ok d x) l = true ->
+  forallb py_hashable (if m then map mfill l else l) = true.
 Proof.
-  intros fp v. induction v as [a|sk l IH|sk l IH|mk kvs IH|n d i x|c i] using pyval_ind2;
-    intros k Hwf Hum Hnp Hth.
+  intros m d l Hd H. rewrite forallb_forall in H.
+  assert (Hx : forall x, In x l -> py_hashable (if m then mfill x else x) = true).
+  { intros x Hx. specialize (H x Hx). unfold mfill. destruct m; cbn [andb] in H.
+    - destruct (is_maskedc x) eqn:E; [reflexivity|]. cbn [orb] in H. apply scalar_hashable.
+      rewrite (elem_ok_scalar d x Hd H). reflexivity.
+    - cbn [orb] in H. apply scalar_hashable. rewrite (elem_ok_scalar d x Hd H). reflexivity. }
+  destruct m; apply forallb_forall.
+  - intros y Hy. apply in_map_iff in Hy. destruct Hy as (x & <- & Hin). apply (Hx x Hin).
+  - intros x Hin. apply (Hx x Hin).
+Qed.
+Lemma mbits_hashable : forall l, forallb py_hashable (map mbit l) = true.
+Proof. induction l; simpl; auto. Qed.
+
+Section KeyHashable.
+  (* the two pandas leaves are proved further down (series_key, frame_key) and plugged in by key_hashable *)
+  Variable fp : bool.
+  Hypothesis series_ok : forall n d i x k, wf (PSeries n d i x) = true ->
+    to_hashable fp (PSeries n d i x) = Ok k -> py_hashable k = true.
+  Hypothesis frame_ok : forall c i k, wf (PFrame c i) = true ->
+    to_hashable fp (PFrame c i) = Ok k -> py_hashable k = true.
+
+Theorem key_hashable_gen : forall v k,
+  wf v = true -> to_hashable fp v = Ok k -> py_hashable k = true.
+Proof.
+  intros v. induction v as [a|sk l IH|sk l IH|mk kvs IH|n d i x|c i] using pyval_ind2;
+    intros k Hwf Hth.
   - rewrite th_atom_eq in Hth. unfold th_atom in Hth. destruct (atom_hashable a) eqn:Ha.
     + inversion Hth; subst. exact Ha.
     + destruct a; try discriminate. destruct fp, picklable; try discriminate. inversion Hth; subst. reflexivity.
   - destruct (py_hashable (PSeq sk l)) eqn:Hh.
     { rewrite th_hashable in Hth by exact Hh. inversion Hth; subst. exact Hh. }
     rewrite th_seq in Hth by exact Hh.
-    assert (Hch := seq_children _ _ Hwf Hum).
-    assert (Hnpl : forall x, In x l -> no_pandas x = true).
-    { unfold no_pandas in Hnp. simpl in Hnp. rewrite forallb_forall in Hnp. exact Hnp. }
-    assert (HIH : Forall (fun x => forall y, to_hashable fp x = Ok y -> py_hashable y = true) l).
-    { rewrite Forall_forall in *. intros x Hx y Hy. destruct (Hch x Hx). eapply IH; eauto. }
-    assert (Hconv : forall d, hashable_iterable false (map (fun x => (x, to_hashable fp x)) l) = Ok d ->
-                              py_hashable d = true).
-    { intros d Hd. apply iterable_unsorted in Hd. destruct Hd as (out & -> & HF). simpl.
-      eapply forall2_hashable; eauto. }
+    assert (Hconv : (forall d sh, sk <> KNd true d sh) -> forall d,
+              hashable_iterable false (map (fun x => (x, to_hashable fp x)) l) = Ok d -> py_hashable d = true).
+    { intros Hsk d Hd. apply iterable_unsorted in Hd. destruct Hd as (out & -> & HF). simpl.
+      assert (Hch := wf_seq_children _ _ Hwf Hsk). rewrite forallb_forall in Hch.
+      eapply forall2_hashable; eauto. rewrite Forall_forall in *. intros x Hx y Hy. eapply IH; eauto. }
     unfold seq_body in Hth. simpl in Hwf. apply andb_true_iff in Hwf. destruct Hwf as [_ Hwf].
     destruct sk.
     + destruct (hashable_iterable false _) as [d|e] eqn:Hd; [|discriminate]. cbn [bind] in Hth.
-      inversion Hth; subst. apply conv_hashable. auto.
+      inversion Hth; subst. apply conv_hashable. apply Hconv; auto. discriminate.
     + destruct (hashable_iterable false _) as [d|e] eqn:Hd; [|discriminate]. cbn [bind] in Hth.
-      inversion Hth; subst. apply conv_hashable. auto.
+      inversion Hth; subst. apply conv_hashable. apply Hconv; auto. discriminate.
     + destruct (hashable_iterable false _) as [d|e] eqn:Hd; [|discriminate]. cbn [bind] in Hth.
-      inversion Hth; subst. apply conv_hashable. simpl. rewrite (Hconv d) by auto. destruct maxlen; reflexivity.
+      inversion Hth; subst. apply conv_hashable. simpl. rewrite (Hconv ltac:(discriminate) d) by auto.
+      destruct maxlen; reflexivity.
     + inversion Hth; subst. apply conv_hashable. simpl.
       apply forallb_forall. intros x Hx. rewrite forallb_forall in Hwf. apply scalar_hashable.
       rewrite (Hwf x Hx). rewrite ?orb_true_r. reflexivity.
@@ -225,15 +266,16 @@ Proof.
       apply scalar_hashable. unfold array_code_ok in Hwf.
       destruct (mem_str code _); [rewrite Hwf; reflexivity|].
       destruct (mem_str code _); [rewrite Hwf; rewrite ?orb_true_r; reflexivity|discriminate].
-    + assert (Hnm : forallb (fun x => negb (is_maskedc x)) l = true).
-      { apply forallb_forall. intros x Hx. rewrite Forall_forall in Hch. destruct (Hch x Hx) as [_ Hu].
-        rewrite (unmasked_not_maskedc x Hu). reflexivity. }
-      apply andb_true_iff in Hwf. destruct Hwf as [Hwf Hel].
+    + apply andb_true_iff in Hwf. destruct Hwf as [Hwf Hel]. apply andb_true_iff in Hwf. destruct Hwf as [Hwf _].
+      apply andb_true_iff in Hwf. destruct Hwf as [Hmo _].
       destruct (str_eqb dtype dt_obj) eqn:Hd.
-      * destruct (hashable_iterable false _) as [d|e] eqn:Hd'; [|discriminate]. cbn [bind] in Hth.
-        inversion Hth; subst. apply conv_hashable. simpl. rewrite ints_hashable. rewrite (Hconv d) by auto. reflexivity.
-      * cbn [bind] in Hth. inversion Hth; subst. apply conv_hashable. simpl. rewrite ints_hashable.
-        rewrite (nd_elems_hashable masked dtype l); auto.
+      * rewrite andb_true_r in Hmo. apply negb_true_iff in Hmo. subst masked.
+        destruct (hashable_iterable false _) as [d|e] eqn:Hd'; [|discriminate]. cbn [bind] in Hth.
+        inversion Hth; subst. apply conv_hashable. simpl. rewrite ints_hashable.
+        rewrite (Hconv ltac:(discriminate) d) by auto. reflexivity.
+      * cbn [bind] in Hth. inversion Hth; subst. apply conv_hashable.
+        assert (Hf := nd_fill_hashable masked dtype l Hd Hel). assert (Hb := mbits_hashable l).
+        destruct masked; cbn [app py_hashable forallb]; rewrite ints_hashable, Hf, ?Hb; reflexivity.
   - destruct (py_hashable (PSetv sk l)) eqn:Hh.
     { rewrite th_hashable in Hth by exact Hh. inversion Hth; subst. exact Hh. }
     rewrite th_set in Hth by exact Hh. unfold set_body in Hth.
@@ -251,15 +293,11 @@ Proof.
     simpl in Hwf. apply andb_true_iff in Hwf. destruct Hwf as [Hwf Hkind].
     apply andb_true_iff in Hwf. destruct Hwf as [Hwf _]. apply andb_true_iff in Hwf. destruct Hwf as [Hwfkv Hhk].
     rewrite forallb_forall in Hwfkv, Hhk.
-    unfold unmasked in Hum. simpl in Hum. rewrite forallb_forall in Hum.
-    unfold no_pandas in Hnp. simpl in Hnp. rewrite forallb_forall in Hnp.
     rewrite Forall_forall in IH.
     assert (Hitems : forall it, In it (mk_items fp kvs) ->
               py_hashable (fst (fst it)) = true /\ (forall hv, snd it = Ok hv -> py_hashable hv = true)).
     { intros it Hit. apply in_mk_items in Hit. destruct Hit as (kv & Hkv & ->). simpl. split; [apply Hhk; auto|].
       intros hv Hhv. specialize (Hwfkv kv Hkv). apply andb_true_iff in Hwfkv. destruct Hwfkv as [_ Hwv].
-      specialize (Hum kv Hkv). apply andb_true_iff in Hum. destruct Hum as [_ Humv].
-      specialize (Hnp kv Hkv). apply andb_true_iff in Hnp. destruct Hnp as [_ Hnpv].
       destruct (IH kv Hkv) as [_ IHv]. eapply IHv; eauto. }
     assert (Hmapping : forall srt d, hashable_mapping srt (mk_items fp kvs) = Ok d -> py_hashable d = true).
     { intros srt d Hd. apply mapping_out in Hd. destruct Hd as (its & out & Hs & -> & HF). simpl.
@@ -279,20 +317,14 @@ Proof.
     + destruct (py_sort item_lt _) as [its|e] eqn:Hs; [|discriminate]. cbn [bind] in Hth. inversion Hth; subst.
       apply conv_hashable. simpl. apply py_sort_perm in Hs.
       apply forallb_forall. intros y Hy. apply in_map_iff in Hy. destruct Hy as (it & <- & Hit).
-      apply (Permutation_in _ (Permutation_sym Hs)) in Hit.
+      apply (Permutation_in _ (Permutation_sym Hs)) in Hit. apply mk_items_strip_incl in Hit.
       destruct (Hitems it Hit) as [Hk _]. apply in_mk_items in Hit. destruct Hit as (kv & Hkv & ->). simpl in *.
       rewrite Hk. rewrite forallb_forall in Hkind. specialize (Hkind kv Hkv).
       rewrite (scalar_hashable (snd kv)); [reflexivity|]. rewrite Hkind. reflexivity.
-  - unfold no_pandas in Hnp. simpl in Hnp. discriminate.
-  - unfold no_pandas in Hnp. simpl in Hnp. discriminate.
+  - eapply series_ok; eauto.
+  - eapply frame_ok; eauto.
 Qed.
-
-(* the full statement (every supported value gets a hashable key) fails on masked arrays *)
-Definition w_masked : pyval :=
-  PSeq (KNd true (s "<i8") [3%Z]) [PInt 1; PA AMasked; PInt 3].
-Lemma key_hashable_refuted :
-  exists v k, supported v = true /\ to_hashable true v = Ok k /\ py_hashable k = false.
-Proof. exists w_masked. eexists. split; [vm_compute; reflexivity|]. split; vm_compute; reflexivity. Qed.
+End KeyHashable.
 
 (* ================= sorting of set elements / mapping items under the guard ================= *)
 Ltac bsplit :=
@@ -300,85 +332,59 @@ Ltac bsplit :=
          | H : _ && _ = true |- _ => apply andb_true_iff in H; destruct H
          end.
 
-Lemma sort_class_vclass : forall v, sort_class v = vclass v.
-Proof. destruct v as [a| | | | |]; try reflexivity; destruct a; reflexivity. Qed.
+(* hashable and well-formed: what a set element / a mapping key is *)
+Definition hw (x : pyval) : Prop := wf x = true /\ py_hashable x = true.
 
-Lemma in_class_vclass : forall c v, in_class c v = true -> vclass v = Some c.
+Lemma nodup_ckeys : forall l, (forall x, In x l -> hw x) -> nodup_by (rel false) l = true -> NoDup (map ckey l).
 Proof.
-  intros c v H. unfold in_class in H. rewrite sort_class_vclass in H.
-  destruct (vclass v) as [c'|]; [|discriminate]. apply Nat.eqb_eq in H. subst. reflexivity.
+  intros l Hl Hnd. apply (nodup_by_NoDup_map (rel false)); auto.
+  intros x y Hx Hy E. destruct (Hl x Hx), (Hl y Hy). apply ckey_rel_iff; auto.
 Qed.
 
-Lemma homog_class : forall l, homog l = true -> exists c, Forall (fun x => vclass x = Some c) l.
+Lemma ck_decide : forall a b, a <> b -> (ck_ltb a b = true /\ cklt a b) \/ (ck_ltb a b = false /\ cklt b a).
 Proof.
-  intros l H. unfold homog in H. apply orb_true_iff in H. destruct H as [H|H]; [apply orb_true_iff in H; destruct H as [H|H]|].
-  - exists 0. apply Forall_forall. intros x Hx. rewrite forallb_forall in H. apply in_class_vclass; auto.
-  - exists 1. apply Forall_forall. intros x Hx. rewrite forallb_forall in H. apply in_class_vclass; auto.
-  - exists 2. apply Forall_forall. intros x Hx. rewrite forallb_forall in H. apply in_class_vclass; auto.
-Qed.
-
-Lemma nodup_keys : forall c l, Forall (fun x => vclass x = Some c) l -> nodup_by (rel false) l = true ->
-  NoDup (map skey l).
-Proof.
-  induction l as [|x t IH]; intros HF Hnd; simpl; [constructor|].
-  inversion HF as [|? ? Hx Ht]; subst. simpl in Hnd. bsplit.
-  constructor; auto. intro Hin. apply in_map_iff in Hin. destruct Hin as (y & Hy & Hyin).
-  rewrite Forall_forall in Ht.
-  assert (Hrel : rel false x y = true) by (eapply class_eq_key; eauto).
-  match goal with H : negb (existsb _ t) = true |- _ => apply negb_true_iff in H; rename H into Hex end.
-  assert (existsb (rel false x) t = true) by (apply existsb_exists; eauto). congruence.
-Qed.
-
-Lemma lex_decide : forall a b, a <> b -> (lex_ltb a b = true /\ lexlt a b) \/ (lex_ltb a b = false /\ lexlt b a).
-Proof.
-  intros a b Hne. destruct (lex_ltb a b) eqn:E; [left; auto|]. right. split; auto.
-  destruct (lex_total a b) as [H|[H|H]]; auto; [unfold lexlt in H; congruence|contradiction].
+  intros a b Hne. destruct (ck_ltb a b) eqn:E; [left; auto|]. right. split; auto.
+  destruct (ck_total a b) as [H|[H|H]]; auto; [unfold cklt in H; congruence|contradiction].
 Qed.
 
 (* elements *)
-Definition ekey (e : elem) : list Z := skey (fst e).
-Lemma elem_lt_spec : forall c (x y : elem),
-  vclass (fst x) = Some c -> vclass (fst y) = Some c -> ekey x <> ekey y ->
-  (elem_lt x y = Ok true /\ lexlt (ekey x) (ekey y)) \/ (elem_lt x y = Ok false /\ lexlt (ekey y) (ekey x)).
+Definition ekey (e : elem) : ck := ckey (fst e).
+Lemma elem_lt_spec : forall (x y : elem), ekey x <> ekey y ->
+  (elem_lt x y = Ok true /\ cklt (ekey x) (ekey y)) \/ (elem_lt x y = Ok false /\ cklt (ekey y) (ekey x)).
 Proof.
-  intros c x y Hx Hy Hne. unfold elem_lt, ekey in *. rewrite (class_lt_key _ _ c Hx Hy).
-  destruct (lex_decide _ _ Hne) as [[E H]|[E H]]; rewrite E; auto.
+  intros x y Hne. unfold elem_lt, key_lt, ekey in *.
+  destruct (ck_decide _ _ Hne) as [[E H]|[E H]]; rewrite E; auto.
 Qed.
 
 (* items *)
-Definition ikey (it : item) : list Z := skey (fst (fst it)).
-Lemma item_lt_spec : forall c (x y : item),
-  vclass (fst (fst x)) = Some c -> vclass (fst (fst y)) = Some c -> ikey x <> ikey y ->
-  (item_lt x y = Ok true /\ lexlt (ikey x) (ikey y)) \/ (item_lt x y = Ok false /\ lexlt (ikey y) (ikey x)).
+Definition ikey (it : item) : ck := ckey (fst (fst it)).
+Lemma item_lt_spec : forall (x y : item), ikey x <> ikey y ->
+  (item_lt x y = Ok true /\ cklt (ikey x) (ikey y)) \/ (item_lt x y = Ok false /\ cklt (ikey y) (ikey x)).
 Proof.
-  intros c x y Hx Hy Hne. unfold item_lt, pair_t, ikey in *.
-  assert (Hrel : rel false (fst (fst x)) (fst (fst y)) = false).
-  { destruct (rel false (fst (fst x)) (fst (fst y))) eqn:E; auto. exfalso. apply Hne.
-    eapply class_eq_key; eauto. }
-  rewrite pair_lt_keys by exact Hrel. rewrite (class_lt_key _ _ c Hx Hy).
-  destruct (lex_decide _ _ Hne) as [[E H]|[E H]]; rewrite E; auto.
+  intros x y Hne. unfold item_lt, key_lt, ikey in *.
+  destruct (ck_decide _ _ Hne) as [[E H]|[E H]]; rewrite E; auto.
 Qed.
 
-Definition esorted := StronglySorted (fun x y : elem => lexlt (ekey x) (ekey y)).
-Definition isorted := StronglySorted (fun x y : item => lexlt (ikey x) (ikey y)).
+Definition esorted := StronglySorted (fun x y : elem => cklt (ekey x) (ekey y)).
+Definition isorted := StronglySorted (fun x y : item => cklt (ikey x) (ikey y)).
 
-Lemma sort_elems : forall c (elems : list elem),
-  Forall (fun e => vclass (fst e) = Some c) elems -> NoDup (map ekey elems) ->
+Lemma sort_elems : forall (elems : list elem), NoDup (map ekey elems) ->
   exists es, py_sort elem_lt elems = Ok es /\ Permutation elems es /\ esorted es.
 Proof.
-  intros c elems HS Hnd.
-  apply (py_sort_spec elem_lt lexlt ekey (fun e => vclass (fst e) = Some c)); auto.
-  - exact lex_trans.
-  - intros; eapply elem_lt_spec; eauto.
+  intros elems Hnd.
+  apply (py_sort_spec elem_lt cklt ekey (fun _ => True)); auto.
+  - exact ck_trans.
+  - intros; apply elem_lt_spec; auto.
+  - apply Forall_forall. auto.
 Qed.
-Lemma sort_items : forall c (items : list item),
-  Forall (fun it => vclass (fst (fst it)) = Some c) items -> NoDup (map ikey items) ->
+Lemma sort_items : forall (items : list item), NoDup (map ikey items) ->
   exists its, py_sort item_lt items = Ok its /\ Permutation items its /\ isorted its.
 Proof.
-  intros c items HS Hnd.
-  apply (py_sort_spec item_lt lexlt ikey (fun it => vclass (fst (fst it)) = Some c)); auto.
-  - exact lex_trans.
-  - intros; eapply item_lt_spec; eauto.
+  intros items Hnd.
+  apply (py_sort_spec item_lt cklt ikey (fun _ => True)); auto.
+  - exact ck_trans.
+  - intros; apply item_lt_spec; auto.
+  - apply Forall_forall. auto.
 Qed.
 
 (* ================= canonicity: equal values of the same type get equal keys ================= *)
@@ -422,143 +428,138 @@ Proof.
 Qed.
 
 Lemma set_canon : forall fp l l' d d',
-  forallb py_hashable l = true -> nodup_by (rel false) l = true ->
-  forallb py_hashable l' = true -> nodup_by (rel false) l' = true ->
-  homog l = true -> homog l' = true -> length l = length l' ->
+  forallb wf l = true -> forallb py_hashable l = true -> nodup_by (rel false) l = true ->
+  forallb wf l' = true -> forallb py_hashable l' = true ->
+  length l = length l' ->
   (forall a, In a l -> exists b, In b l' /\ rel true a b = true) ->
   hashable_iterable true (map (fun x => (x, to_hashable fp x)) l) = Ok d ->
   hashable_iterable true (map (fun x => (x, to_hashable fp x)) l') = Ok d' ->
   rel false d d' = true.
 Proof.
-  intros fp l l' d d' Hh Hnd Hh' Hnd' Hg Hg' Hlen H1 Hd Hd'.
-  destruct (homog_class l Hg) as [c Hc]. destruct (homog_class l' Hg') as [c' Hc'].
+  intros fp l l' d d' Hw Hh Hnd Hw' Hh' Hlen H1 Hd Hd'.
+  rewrite forallb_forall in Hw, Hh, Hw', Hh'.
+  assert (Hhw : forall x, In x l -> hw x) by (intros x Hx; split; auto).
+  assert (Hhw' : forall x, In x l' -> hw x) by (intros x Hx; split; auto).
+  (* rel true = rel false between elements; the keys of l' are a permutation of those of l, hence duplicate free *)
+  assert (H1f : forall a, In a l -> exists b, In b l' /\ rel false a b = true).
+  { intros a Ha. destruct (H1 a Ha) as (b & Hb & Hab). exists b. split; auto.
+    rewrite (hashable_rel_same a (Hw a Ha) (Hh a Ha) b (Hw' b Hb) (Hh' b Hb)). exact Hab. }
+  assert (Hndk : NoDup (map ckey l)) by (apply nodup_ckeys; auto).
+  assert (Hperm : Permutation (map ckey l) (map ckey l')).
+  { apply NoDup_Permutation_bis; auto; [rewrite !map_length; lia|].
+    intros k Hk. apply in_map_iff in Hk. destruct Hk as (x & <- & Hx). destruct (H1f x Hx) as (y & Hy & Hxy).
+    apply in_map_iff. exists y. split; auto. symmetry. apply ckey_rel_iff; auto. }
+  assert (Hndk' : NoDup (map ckey l')) by (eapply Permutation_NoDup; eauto).
   set (elems := map (fun x => (x, to_hashable fp x)) l) in *.
   set (elems' := map (fun x => (x, to_hashable fp x)) l') in *.
-  assert (Hk : map ekey elems = map skey l) by (unfold elems; rewrite map_map; reflexivity).
-  assert (Hk' : map ekey elems' = map skey l') by (unfold elems'; rewrite map_map; reflexivity).
-  assert (HS : Forall (fun e : elem => vclass (fst e) = Some c) elems).
-  { apply Forall_forall. intros e He. apply in_map_iff in He. destruct He as (x & <- & Hx). simpl.
-    rewrite Forall_forall in Hc. auto. }
-  assert (HS' : Forall (fun e : elem => vclass (fst e) = Some c') elems').
-  { apply Forall_forall. intros e He. apply in_map_iff in He. destruct He as (x & <- & Hx). simpl.
-    rewrite Forall_forall in Hc'. auto. }
-  assert (Hndk : NoDup (map skey l)) by (eapply nodup_keys; eauto).
-  assert (Hndk' : NoDup (map skey l')) by (eapply nodup_keys; eauto).
-  destruct (sort_elems c elems HS) as (es0 & Hs0 & Hp & Hso); [rewrite Hk; auto|].
-  destruct (sort_elems c' elems' HS') as (es0' & Hs0' & Hp' & Hso'); [rewrite Hk'; auto|].
+  assert (Hk : map ekey elems = map ckey l) by (unfold elems; rewrite map_map; reflexivity).
+  assert (Hk' : map ekey elems' = map ckey l') by (unfold elems'; rewrite map_map; reflexivity).
+  destruct (sort_elems elems) as (es0 & Hs0 & Hp & Hso); [rewrite Hk; auto|].
+  destruct (sort_elems elems') as (es0' & Hs0' & Hp' & Hso'); [rewrite Hk'; auto|].
   apply iterable_sorted in Hd. destruct Hd as (es & out & Hs & -> & HF).
   apply iterable_sorted in Hd'. destruct Hd' as (es' & out' & Hs' & -> & HF').
   rewrite Hs0 in Hs. inversion Hs; subst es0. rewrite Hs0' in Hs'. inversion Hs'; subst es0'.
-  rewrite forallb_forall in Hh, Hh'.
   rewrite (elems_out fp l es out Hp Hh HF), (elems_out fp l' es' out' Hp' Hh' HF').
   rewrite rel_tuple. apply rel_list_forall2. apply Forall2_map_fst.
-  rewrite Forall_forall in Hc, Hc'.
-  set (R := fun e e' : elem => vclass (fst e) = Some c /\ vclass (fst e') = Some c'
-                               /\ rel false (fst e) (fst e') = true).
+  set (R := fun e e' : elem => hw (fst e) /\ hw (fst e') /\ rel false (fst e) (fst e') = true).
   assert (HR : Forall2 R es es').
-  { apply (sorted_unique lexlt ekey ekey R lex_irrefl lex_trans); auto.
-    - intros a b (Ha & Hb & Hab). unfold ekey. eapply class_eq_key; eauto.
+  { apply (sorted_unique cklt ekey ekey R ck_irrefl ck_trans); auto.
+    - intros a b ((Wa & Ha) & (Wb & Hb) & Hab). unfold ekey. apply ckey_rel_iff; auto.
     - intros a Ha. apply (Permutation_in _ (Permutation_sym Hp)) in Ha. apply in_map_iff in Ha.
-      destruct Ha as (x & <- & Hx). destruct (H1 x Hx) as (y & Hy & Hxy).
+      destruct Ha as (x & <- & Hx). destruct (H1f x Hx) as (y & Hy & Hxy).
       exists (y, to_hashable fp y). split.
       + apply (Permutation_in _ Hp'). apply in_map_iff. eauto.
-      + unfold R. simpl. split; auto. split; auto.
-        eapply class_eq_key; eauto. eapply (class_eq_key true); eauto.
+      + unfold R. simpl. auto.
     - intros b Hb. apply (Permutation_in _ (Permutation_sym Hp')) in Hb. apply in_map_iff in Hb.
       destruct Hb as (y & <- & Hy).
-      assert (Hincl : incl (map skey l) (map skey l')).
-      { intros z Hz. apply in_map_iff in Hz. destruct Hz as (x & <- & Hx). destruct (H1 x Hx) as (y0 & Hy0 & Hxy).
-        apply in_map_iff. exists y0. split; auto. symmetry. eapply (class_eq_key true); eauto. }
-      assert (Hincl' : incl (map skey l') (map skey l)).
-      { apply NoDup_length_incl; auto. rewrite !map_length. lia. }
-      assert (Hin : In (skey y) (map skey l)) by (apply Hincl'; apply in_map; auto).
+      assert (Hin : In (ckey y) (map ckey l)).
+      { apply (Permutation_in _ (Permutation_sym Hperm)). apply in_map. auto. }
       apply in_map_iff in Hin. destruct Hin as (x & Hxy & Hx).
       exists (x, to_hashable fp x). split.
       + apply (Permutation_in _ Hp). apply in_map_iff. eauto.
-      + unfold R. simpl. split; auto. split; auto. eapply class_eq_key; eauto. }
+      + unfold R. simpl. split; auto. split; auto. apply ckey_rel_iff; auto. }
   clear -HR. induction HR as [|e e' es es' (_ & _ & H) _ IH]; constructor; auto.
 Qed.
 
-Definition itemR (c c' : nat) (Rv : pyval -> pyval -> Prop) (it it' : item) : Prop :=
-  vclass (fst (fst it)) = Some c /\ vclass (fst (fst it')) = Some c'
+Definition itemR (Rv : pyval -> pyval -> Prop) (it it' : item) : Prop :=
+  hw (fst (fst it)) /\ hw (fst (fst it'))
   /\ rel false (fst (fst it)) (fst (fst it')) = true /\ Rv (snd (fst it)) (snd (fst it')).
 
-Lemma items_canon : forall fp c c' (Rv : pyval -> pyval -> Prop) kvs kvs' its its',
-  nodup_by (rel false) (map fst kvs) = true -> nodup_by (rel false) (map fst kvs') = true ->
-  Forall (fun x => vclass x = Some c) (map fst kvs) -> Forall (fun x => vclass x = Some c') (map fst kvs') ->
+Definition keys_hw (kvs : list (pyval * pyval)) : Prop := forall kv, In kv kvs -> hw (fst kv).
+
+Lemma keys_perm : forall (kvs kvs' : list (pyval * pyval)) (Rv : pyval -> pyval -> Prop),
+  keys_hw kvs -> keys_hw kvs' -> nodup_by (rel false) (map fst kvs) = true -> length kvs = length kvs' ->
   (forall kv, In kv kvs -> exists kv', In kv' kvs' /\ rel true (fst kv) (fst kv') = true /\ Rv (snd kv) (snd kv')) ->
-  (forall kv', In kv' kvs' -> exists kv, In kv kvs /\ rel true (fst kv) (fst kv') = true /\ Rv (snd kv) (snd kv')) ->
-  py_sort item_lt (mk_items fp kvs) = Ok its -> py_sort item_lt (mk_items fp kvs') = Ok its' ->
-  Forall2 (itemR c c' Rv) its its'.
+  NoDup (map ckey (map fst kvs)) /\ Permutation (map ckey (map fst kvs)) (map ckey (map fst kvs')).
 Proof.
-  intros fp c c' Rv kvs kvs' its its' Hnd Hnd' Hc Hc' H1 H2 Hs Hs'.
-  assert (Hk : map ikey (mk_items fp kvs) = map skey (map fst kvs))
-    by (unfold mk_items; rewrite !map_map; reflexivity).
-  assert (Hk' : map ikey (mk_items fp kvs') = map skey (map fst kvs'))
-    by (unfold mk_items; rewrite !map_map; reflexivity).
-  rewrite Forall_forall in Hc, Hc'.
-  assert (Hcl : forall kv, In kv kvs -> vclass (fst kv) = Some c) by (intros; apply Hc; apply in_map; auto).
-  assert (Hcl' : forall kv, In kv kvs' -> vclass (fst kv) = Some c') by (intros; apply Hc'; apply in_map; auto).
-  assert (HS : Forall (fun it : item => vclass (fst (fst it)) = Some c) (mk_items fp kvs)).
-  { apply Forall_forall. intros it Hit. apply in_mk_items in Hit. destruct Hit as (kv & Hkv & ->). simpl. auto. }
-  assert (HS' : Forall (fun it : item => vclass (fst (fst it)) = Some c') (mk_items fp kvs')).
-  { apply Forall_forall. intros it Hit. apply in_mk_items in Hit. destruct Hit as (kv & Hkv & ->). simpl. auto. }
-  destruct (sort_items c _ HS) as (its0 & Hs0 & Hp & Hso).
-  { rewrite Hk. eapply nodup_keys; eauto. apply Forall_forall. auto. }
-  destruct (sort_items c' _ HS') as (its0' & Hs0' & Hp' & Hso').
-  { rewrite Hk'. eapply nodup_keys; eauto. apply Forall_forall. auto. }
-  rewrite Hs0 in Hs. inversion Hs; subst its0. rewrite Hs0' in Hs'. inversion Hs'; subst its0'.
-  apply (sorted_unique lexlt ikey ikey (itemR c c' Rv) lex_irrefl lex_trans); auto.
-  - intros a b (Ha & Hb & Hab & _). unfold ikey. eapply class_eq_key; eauto.
-  - intros a Ha. apply (Permutation_in _ (Permutation_sym Hp)) in Ha. apply in_mk_items in Ha.
-    destruct Ha as (kv & Hkv & ->). destruct (H1 kv Hkv) as (kv' & Hkv' & Hkk & Hvv).
-    exists (fst kv', snd kv', to_hashable fp (snd kv')). split.
-    + apply (Permutation_in _ Hp'). unfold mk_items. apply in_map_iff. exists kv'. auto.
-    + unfold itemR. simpl. repeat split; auto.
-      eapply class_eq_key; eauto. eapply (class_eq_key true); eauto.
-  - intros b Hb. apply (Permutation_in _ (Permutation_sym Hp')) in Hb. apply in_mk_items in Hb.
-    destruct Hb as (kv' & Hkv' & ->). destruct (H2 kv' Hkv') as (kv & Hkv & Hkk & Hvv).
-    exists (fst kv, snd kv, to_hashable fp (snd kv)). split.
-    + apply (Permutation_in _ Hp). unfold mk_items. apply in_map_iff. exists kv. auto.
-    + unfold itemR. simpl. repeat split; auto.
-      eapply class_eq_key; eauto. eapply (class_eq_key true); eauto.
+  intros kvs kvs' Rv Hk Hk' Hnd Hlen H1.
+  assert (Hndk : NoDup (map ckey (map fst kvs))).
+  { apply nodup_ckeys; auto. intros x Hx. apply in_map_iff in Hx. destruct Hx as (kv & <- & Hin). auto. }
+  split; auto.
+  apply NoDup_Permutation_bis; auto; [rewrite !map_length; lia|].
+  intros k Hin. rewrite map_map in Hin. apply in_map_iff in Hin. destruct Hin as (kv & <- & Hkv).
+  destruct (H1 kv Hkv) as (kv' & Hkv' & Hkk & _). rewrite map_map. apply in_map_iff. exists kv'. split; auto.
+  destruct (Hk kv Hkv) as [W H], (Hk' kv' Hkv') as [W' H'].
+  symmetry. apply ckey_rel_iff; auto. rewrite (hashable_rel_same _ W H _ W' H'). exact Hkk.
 Qed.
 
-Lemma dict_h2 : forall c c' (Rv : pyval -> pyval -> Prop) (kvs kvs' : list (pyval * pyval)),
-  nodup_by (rel false) (map fst kvs) = true -> nodup_by (rel false) (map fst kvs') = true ->
-  Forall (fun x => vclass x = Some c) (map fst kvs) -> Forall (fun x => vclass x = Some c') (map fst kvs') ->
-  length kvs = length kvs' ->
+Lemma dict_h2 : forall (Rv : pyval -> pyval -> Prop) (kvs kvs' : list (pyval * pyval)),
+  keys_hw kvs -> keys_hw kvs' -> nodup_by (rel false) (map fst kvs) = true -> length kvs = length kvs' ->
   (forall kv, In kv kvs -> exists kv', In kv' kvs' /\ rel true (fst kv) (fst kv') = true /\ Rv (snd kv) (snd kv')) ->
   (forall kv', In kv' kvs' -> exists kv, In kv kvs /\ rel true (fst kv) (fst kv') = true /\ Rv (snd kv) (snd kv')).
 Proof.
-  intros c c' Rv kvs kvs' Hnd Hnd' Hc Hc' Hlen H1 kv' Hkv'.
-  assert (Hndk : NoDup (map skey (map fst kvs))) by (eapply nodup_keys; eauto).
-  assert (Hndk' : NoDup (map skey (map fst kvs'))) by (eapply nodup_keys; eauto).
-  rewrite Forall_forall in Hc, Hc'.
-  assert (Hcl : forall kv, In kv kvs -> vclass (fst kv) = Some c) by (intros; apply Hc; apply in_map; auto).
-  assert (Hcl' : forall kv, In kv kvs' -> vclass (fst kv) = Some c') by (intros; apply Hc'; apply in_map; auto).
-  set (f := fun kv : pyval * pyval => skey (fst kv)).
-  assert (Hm : forall l, map skey (map fst l) = map f l) by (intros; rewrite map_map; reflexivity).
-  rewrite Hm in Hndk, Hndk'.
-  assert (Hincl : incl (map f kvs) (map f kvs')).
-  { intros z Hz. apply in_map_iff in Hz. destruct Hz as (kv & <- & Hkv).
-    destruct (H1 kv Hkv) as (kv2 & Hkv2 & Hkk & _). apply in_map_iff. exists kv2. split; auto.
-    unfold f. symmetry. eapply (class_eq_key true); eauto. }
-  assert (Hincl' : incl (map f kvs') (map f kvs)).
-  { apply NoDup_length_incl; auto. rewrite !map_length. lia. }
-  assert (Hin : In (f kv') (map f kvs)) by (apply Hincl'; apply in_map; auto).
+  intros Rv kvs kvs' Hk Hk' Hnd Hlen H1 kv' Hkv'.
+  destruct (keys_perm kvs kvs' Rv Hk Hk' Hnd Hlen H1) as [Hndk Hperm].
+  assert (Hndk' : NoDup (map ckey (map fst kvs'))) by (eapply Permutation_NoDup; eauto).
+  set (f := fun kv : pyval * pyval => ckey (fst kv)).
+  assert (Hm : forall l, map ckey (map fst l) = map f l) by (intros; rewrite map_map; reflexivity).
+  rewrite !Hm in *.
+  assert (Hin : In (f kv') (map f kvs)).
+  { apply (Permutation_in _ (Permutation_sym Hperm)). apply in_map. auto. }
   apply in_map_iff in Hin. destruct Hin as (kv & Hf & Hkv).
   destruct (H1 kv Hkv) as (kv2 & Hkv2 & Hkk & Hvv).
   assert (E : kv2 = kv').
-  { apply (NoDup_map_inj f kvs'); auto. rewrite <- Hf. unfold f. symmetry. eapply (class_eq_key true); eauto. }
+  { apply (NoDup_map_inj f kvs'); auto. rewrite <- Hf. unfold f.
+    destruct (Hk kv Hkv) as [W H], (Hk' kv2 Hkv2) as [W2 H2].
+    symmetry. apply ckey_rel_iff; auto. rewrite (hashable_rel_same _ W H _ W2 H2). exact Hkk. }
   subst kv2. eauto.
 Qed.
 
+Lemma items_canon : forall fp (Rv : pyval -> pyval -> Prop) kvs kvs' its its',
+  keys_hw kvs -> keys_hw kvs' -> nodup_by (rel false) (map fst kvs) = true -> length kvs = length kvs' ->
+  (forall kv, In kv kvs -> exists kv', In kv' kvs' /\ rel true (fst kv) (fst kv') = true /\ Rv (snd kv) (snd kv')) ->
+  py_sort item_lt (mk_items fp kvs) = Ok its -> py_sort item_lt (mk_items fp kvs') = Ok its' ->
+  Forall2 (itemR Rv) its its'.
+Proof.
+  intros fp Rv kvs kvs' its its' Hk Hk' Hnd Hlen H1 Hs Hs'.
+  assert (H2 := dict_h2 Rv kvs kvs' Hk Hk' Hnd Hlen H1).
+  destruct (keys_perm kvs kvs' Rv Hk Hk' Hnd Hlen H1) as [Hndk Hperm].
+  assert (Hndk' : NoDup (map ckey (map fst kvs'))) by (eapply Permutation_NoDup; eauto).
+  assert (Hkk : forall l, map ikey (mk_items fp l) = map ckey (map fst l))
+    by (intros; unfold mk_items; rewrite !map_map; reflexivity).
+  destruct (sort_items (mk_items fp kvs)) as (its0 & Hs0 & Hp & Hso); [rewrite Hkk; auto|].
+  destruct (sort_items (mk_items fp kvs')) as (its0' & Hs0' & Hp' & Hso'); [rewrite Hkk; auto|].
+  rewrite Hs0 in Hs. inversion Hs; subst its0. rewrite Hs0' in Hs'. inversion Hs'; subst its0'.
+  assert (Hrf : forall kv kv', In kv kvs -> In kv' kvs' -> rel true (fst kv) (fst kv') = true ->
+                               rel false (fst kv) (fst kv') = true).
+  { intros kv kv' Hkv Hkv' Hr. destruct (Hk kv Hkv) as [W H], (Hk' kv' Hkv') as [W' H'].
+    rewrite (hashable_rel_same _ W H _ W' H'). exact Hr. }
+  apply (sorted_unique cklt ikey ikey (itemR Rv) ck_irrefl ck_trans); auto.
+  - intros a b ((Wa & Ha) & (Wb & Hb) & Hab & _). unfold ikey. apply ckey_rel_iff; auto.
+  - intros a Ha. apply (Permutation_in _ (Permutation_sym Hp)) in Ha. apply in_mk_items in Ha.
+    destruct Ha as (kv & Hkv & ->). destruct (H1 kv Hkv) as (kv' & Hkv' & Hr & Hvv).
+    exists (fst kv', snd kv', to_hashable fp (snd kv')). split.
+    + apply (Permutation_in _ Hp'). unfold mk_items. apply in_map_iff. exists kv'. auto.
+    + unfold itemR. simpl. repeat split; auto; try apply (Hk kv Hkv); try apply (Hk' kv' Hkv').
+  - intros b Hb. apply (Permutation_in _ (Permutation_sym Hp')) in Hb. apply in_mk_items in Hb.
+    destruct Hb as (kv' & Hkv' & ->). destruct (H2 kv' Hkv') as (kv & Hkv & Hr & Hvv).
+    exists (fst kv, snd kv, to_hashable fp (snd kv)). split.
+    + apply (Permutation_in _ Hp). unfold mk_items. apply in_map_iff. exists kv. auto.
+    + unfold itemR. simpl. repeat split; auto; try apply (Hk kv Hkv); try apply (Hk' kv' Hkv').
+Qed.
+
 (* ---------- the guard of the partial theorems and its inheritance by sub-values ---------- *)
-Definition g (v : pyval) : bool := wf v && homogeneous_sortable v && no_pandas v && no_zero_count v.
-Ltac gsplit H Hwf Hhs Hnp Hnz :=
-  unfold g in H; apply andb_true_iff in H; destruct H as [H Hnz];
-  apply andb_true_iff in H; destruct H as [H Hnp]; apply andb_true_iff in H; destruct H as [Hwf Hhs].
+Definition g (v : pyval) : bool := wf v.
 
 Lemma fn_seq : forall q sk l, forall_nodes q (PSeq sk l) = q (PSeq sk l) && forallb (forall_nodes q) l.
 Proof. reflexivity. Qed.
@@ -568,31 +569,19 @@ Lemma fn_map : forall q mk kvs, forall_nodes q (PMap mk kvs) =
   q (PMap mk kvs) && forallb (fun kv => forall_nodes q (fst kv) && forall_nodes q (snd kv)) kvs.
 Proof. reflexivity. Qed.
 
-Lemma g_intro : forall v, wf v = true -> homogeneous_sortable v = true -> no_pandas v = true ->
-  no_zero_count v = true -> g v = true.
-Proof. intros v H1 H2 H3 H4. unfold g. rewrite H1, H2, H3, H4. reflexivity. Qed.
-
 Lemma g_seq_children : forall sk l, g (PSeq sk l) = true -> (forall d sh, sk <> KNd true d sh) ->
   Forall (fun x => g x = true) l.
 Proof.
-  intros sk l H Hsk. gsplit H Hwf Hhs Hnp Hnz.
-  unfold homogeneous_sortable in Hhs. unfold no_pandas in Hnp. unfold no_zero_count in Hnz.
-  rewrite fn_seq in Hhs, Hnp, Hnz. bsplit.
-  assert (Hw : forallb wf l = true).
-  { simpl in Hwf. bsplit. destruct sk; auto. destruct masked; auto. exfalso. eapply Hsk; eauto. }
-  apply Forall_forall. intros x Hx.
-  repeat match goal with H : forallb _ l = true |- _ => rewrite forallb_forall in H; specialize (H x Hx) end.
-  apply g_intro; auto.
+  intros sk l H Hsk. apply Forall_forall. intros x Hx. assert (Hw := wf_seq_children sk l H Hsk).
+  rewrite forallb_forall in Hw. apply Hw. exact Hx.
 Qed.
 
 Lemma g_map_values : forall mk kvs, g (PMap mk kvs) = true -> Forall (fun kv => g (snd kv) = true) kvs.
 Proof.
-  intros mk kvs H. gsplit H Hwf Hhs Hnp Hnz.
-  unfold homogeneous_sortable in Hhs. unfold no_pandas in Hnp. unfold no_zero_count in Hnz.
-  rewrite fn_map in Hhs, Hnp, Hnz. simpl in Hwf. bsplit.
-  apply Forall_forall. intros x Hx.
-  repeat match goal with H : forallb _ kvs = true |- _ => rewrite forallb_forall in H; specialize (H x Hx) end.
-  bsplit. apply g_intro; auto.
+  intros mk kvs H. unfold g in H. simpl in H. apply andb_true_iff in H. destruct H as [H _].
+  apply andb_true_iff in H. destruct H as [H _]. apply andb_true_iff in H. destruct H as [H _].
+  apply Forall_forall. intros kv Hkv. rewrite forallb_forall in H. specialize (H kv Hkv).
+  apply andb_true_iff in H. destruct H. assumption.
 Qed.
 
 Definition atomic (x : pyval) : bool := match x with PA _ => true | _ => false end.
@@ -626,6 +615,39 @@ Qed.
 Lemma ints_rel_refl : forall sh, rel_list false (map (fun z => PInt z) sh) (map (fun z => PInt z) sh) = true.
 Proof. induction sh as [|z sh IH]; simpl; auto. unfold atom_eq. simpl. rewrite Z.eqb_refl. exact IH. Qed.
 
+Lemma masked_rel : forall st x y, rel st x y = true -> is_maskedc x = is_maskedc y.
+Proof.
+  intros st x y H. destruct x as [a| | | | |]; destruct y as [b| | | | |]; try discriminate; try reflexivity.
+  rewrite rel_atom_l in H. destruct a, b; unfold atom_eq in H; cbn [numval] in H; try discriminate; reflexivity.
+Qed.
+
+Lemma fill_rel : forall l l', forallb atomic l = true -> rel_list true l l' = true ->
+  rel_list false (map mfill l) (map mfill l') = true /\ rel_list false (map mbit l) (map mbit l') = true.
+Proof.
+  induction l as [|x t IH]; intros l' Ha H; destruct l' as [|y t']; cbn [map rel_list] in *; try discriminate; auto.
+  cbn [forallb] in Ha. apply andb_true_iff in Ha. destruct Ha as [Hax Hat].
+  apply andb_true_iff in H. destruct H as [Hxy Ht]. destruct (IH t' Hat Ht) as [I1 I2]. rewrite I1, I2.
+  assert (E := masked_rel _ _ _ Hxy). unfold mfill, mbit. rewrite <- E. destruct (is_maskedc x).
+  - split; reflexivity.
+  - rewrite (atomic_rel x y Hax), Hxy. split; reflexivity.
+Qed.
+
+Lemma fill_rel_rev : forall l l', forallb atomic l = true ->
+  rel_list false (map mfill l) (map mfill l') = true -> rel_list false (map mbit l) (map mbit l') = true ->
+  rel_list true l l' = true.
+Proof.
+  induction l as [|x t IH]; intros l' Ha H Hb; destruct l' as [|y t']; cbn [map rel_list] in *; try discriminate; auto.
+  cbn [forallb] in Ha. apply andb_true_iff in Ha. destruct Ha as [Hax Hat].
+  apply andb_true_iff in H. destruct H as [Hxy Ht]. apply andb_true_iff in Hb. destruct Hb as [Hbxy Hbt].
+  rewrite (IH t' Hat Ht Hbt), andb_true_r.
+  unfold mbit in Hbxy. rewrite rel_atom_l in Hbxy. unfold atom_eq in Hbxy. cbn [numval] in Hbxy.
+  unfold mfill in Hxy.
+  destruct (is_maskedc x) eqn:Mx; destruct (is_maskedc y) eqn:My; try discriminate.
+  - destruct x as [a| | | | |]; try discriminate. destruct a; try discriminate.
+    destruct y as [b| | | | |]; try discriminate. destruct b; try discriminate. reflexivity.
+  - rewrite <- (atomic_rel x y Hax). exact Hxy.
+Qed.
+
 Lemma conv_elems_rel : forall fp l l' d d',
   Forall2 (fun x y => rel true x y = true) l l' ->
   Forall (fun x => forall y, g x = true -> g y = true -> rel true x y = true -> keq fp x y) l ->
@@ -645,14 +667,14 @@ Proof.
     simpl. rewrite (Hx y) by auto. simpl. apply IH; auto.
 Qed.
 
-Lemma mapping_rel : forall fp c c' (its its' : list item) out out',
-  Forall2 (itemR c c' (keq fp)) its its' ->
+Lemma mapping_rel : forall fp (its its' : list item) out out',
+  Forall2 (itemR (keq fp)) its its' ->
   (forall it, In it its -> snd it = to_hashable fp (snd (fst it))) ->
   (forall it, In it its' -> snd it = to_hashable fp (snd (fst it))) ->
   Forall2 item_out its out -> Forall2 item_out its' out' ->
   rel_list false out out' = true.
 Proof.
-  intros fp c c' its its' out out' HR. revert out out'.
+  intros fp its its' out out' HR. revert out out'.
   induction HR as [|it it' its its' (Hc & Hc' & Hk & Hv) HR IH]; intros out out' Hs Hs' HF HF'.
   - inversion HF; inversion HF'; subst. reflexivity.
   - inversion HF as [|? y ? outx (hv & Hhv & ->) HFx]; subst.
@@ -676,46 +698,42 @@ Proof. destruct f; simpl; unfold atom_eq; simpl; auto. apply str_eqb_refl. Qed.
 Lemma maxlen_rel_refl : forall m, rel false (maxlen_val m) (maxlen_val m) = true.
 Proof. destruct m; simpl; unfold atom_eq; simpl; auto. apply Z.eqb_refl. Qed.
 
+Lemma wf_keys_hw : forall mk kvs, wf (PMap mk kvs) = true ->
+  keys_hw kvs /\ nodup_by (rel false) (map fst kvs) = true.
+Proof.
+  intros mk kvs H. simpl in H. apply andb_true_iff in H. destruct H as [H _].
+  apply andb_true_iff in H. destruct H as [H Hnd]. apply andb_true_iff in H. destruct H as [Hw Hh].
+  split; auto. intros kv Hkv. rewrite forallb_forall in Hw, Hh. specialize (Hw kv Hkv). specialize (Hh kv Hkv).
+  apply andb_true_iff in Hw. destruct Hw. split; auto.
+Qed.
+Lemma strip_keys_hw : forall kvs, keys_hw kvs -> keys_hw (strip kvs).
+Proof. intros kvs H kv Hkv. apply H. apply strip_incl. exact Hkv. Qed.
+
 (* sorted mappings (dict, defaultdict): the converted item tuples agree *)
 Lemma map_canon : forall fp kvs kvs' d d',
   wf (PDict kvs) = true -> wf (PDict kvs') = true ->
-  homog (map fst kvs) = true -> homog (map fst kvs') = true ->
   rel_dict true kvs kvs' = true ->
   (forall kv kv', In kv kvs -> In kv' kvs' -> rel true (snd kv) (snd kv') = true -> keq fp (snd kv) (snd kv')) ->
   hashable_mapping true (mk_items fp kvs) = Ok d -> hashable_mapping true (mk_items fp kvs') = Ok d' ->
   rel false d d' = true.
 Proof.
-  intros fp kvs kvs' d d' Hwf Hwf' Hg Hg' Hrel HIH Hd Hd'.
+  intros fp kvs kvs' d d' Hwf Hwf' Hrel HIH Hd Hd'.
   unfold rel_dict in Hrel. apply andb_true_iff in Hrel. destruct Hrel as [Hlen Hall]. apply Nat.eqb_eq in Hlen.
-  assert (HIH' : forall kv kv', In kv kvs -> In kv' kvs' -> rel true (snd kv) (snd kv') = true ->
-                               keq fp (snd kv) (snd kv')) by exact HIH.
-  clear HIH.
-  assert (Hnd : nodup_by (rel false) (map fst kvs) = true) by (simpl in Hwf; bsplit; assumption).
-  assert (Hnd' : nodup_by (rel false) (map fst kvs') = true) by (simpl in Hwf'; bsplit; assumption).
-  clear Hwf Hwf'.
-  destruct (homog_class _ Hg) as [c Hc]. destruct (homog_class _ Hg') as [c' Hc'].
+  destruct (wf_keys_hw _ _ Hwf) as [Hk Hnd]. destruct (wf_keys_hw _ _ Hwf') as [Hk' Hnd'].
   assert (Hone : forall kv, In kv kvs -> exists kv', In kv' kvs' /\ rel true (fst kv) (fst kv') = true
                                                   /\ keq fp (snd kv) (snd kv')).
   { intros kv Hkv. rewrite forallb_forall in Hall. specialize (Hall kv Hkv). apply existsb_exists in Hall.
     destruct Hall as (kv' & Hkv' & Hr). apply andb_true_iff in Hr. destruct Hr as [Hrk Hrv].
     exists kv'. split; auto. }
-  assert (Htwo := dict_h2 c c' (keq fp) kvs kvs' Hnd Hnd' Hc Hc' Hlen Hone).
   apply mapping_out in Hd. destruct Hd as (its & out & Hs & -> & HF).
   apply mapping_out in Hd'. destruct Hd' as (its' & out' & Hs' & -> & HF').
   change (py_sort item_lt (mk_items fp kvs) = Ok its) in Hs.
   change (py_sort item_lt (mk_items fp kvs') = Ok its') in Hs'.
-  assert (HR : Forall2 (itemR c c' (keq fp)) its its')
-    by (exact (items_canon fp c c' (keq fp) kvs kvs' its its' Hnd Hnd' Hc Hc' Hone Htwo Hs Hs')).
+  assert (HR : Forall2 (itemR (keq fp)) its its')
+    by (exact (items_canon fp (keq fp) kvs kvs' its its' Hk Hk' Hnd Hlen Hone Hs Hs')).
   rewrite rel_tuple. eapply mapping_rel; eauto.
   - apply items_snd with (kvs := kvs). eapply py_sort_perm; eauto.
   - apply items_snd with (kvs := kvs'). eapply py_sort_perm; eauto.
-Qed.
-
-Lemma hs_map_keys : forall mk kvs, homogeneous_sortable (PMap mk kvs) = true -> mk <> KODict ->
-  homog (map fst kvs) = true.
-Proof.
-  intros mk kvs H Hmk. unfold homogeneous_sortable in H. rewrite fn_map in H. bsplit.
-  destruct mk; auto; congruence.
 Qed.
 
 Lemma odict_rel : forall fp kvs kvs' out out',
@@ -739,13 +757,13 @@ Proof.
     apply IH; auto; intros; [apply Hw|apply Hw'|eapply HIH]; simpl; eauto.
 Qed.
 
-Lemma counter_rel : forall c c' (its its' : list item),
-  Forall2 (itemR c c' (fun v v' => rel true v v' = true)) its its' ->
+Lemma counter_rel : forall (its its' : list item),
+  Forall2 (itemR (fun v v' => rel true v v' = true)) its its' ->
   (forall it, In it its -> atomic (snd (fst it)) = true) ->
   rel_list false (map (fun it : item => pair_t (fst (fst it)) (snd (fst it))) its)
                  (map (fun it : item => pair_t (fst (fst it)) (snd (fst it))) its') = true.
 Proof.
-  intros c c' its its' HR. induction HR as [|it it' its its' (Hc & Hc' & Hk & Hv) HR IH]; intros Ha; simpl; auto.
+  intros its its' HR. induction HR as [|it it' its its' (Hc & Hc' & Hk & Hv) HR IH]; intros Ha; simpl; auto.
   rewrite Hk. simpl. rewrite (atomic_rel (snd (fst it))) by (apply Ha; simpl; auto). rewrite Hv. simpl.
   apply IH. intros; apply Ha; simpl; auto.
 Qed.
@@ -755,10 +773,18 @@ Ltac case_iter H d Hd :=
   | context [hashable_iterable ?b ?e] => destruct (hashable_iterable b e) as [d|?] eqn:Hd; [|discriminate]
   end.
 
-Theorem eq_implies_key_eq_g : forall fp v w,
+Section EqImplies.
+  (* the two pandas leaves are proved further down (series_eq, frame_eq) and plugged in by eq_implies_key_eq *)
+  Variable fp : bool.
+  Hypothesis series_eq : forall n d i x w, wf (PSeries n d i x) = true -> wf w = true ->
+    rel true (PSeries n d i x) w = true -> keq fp (PSeries n d i x) w.
+  Hypothesis frame_eq : forall c i w, wf (PFrame c i) = true -> wf w = true ->
+    rel true (PFrame c i) w = true -> keq fp (PFrame c i) w.
+
+Theorem eq_implies_key_eq_g : forall v w,
   g v = true -> g w = true -> rel true v w = true -> keq fp v w.
 Proof.
-  intros fp v. induction v as [a|sk l IH|sk l IH|mk kvs IH|n d i x|c i] using pyval_ind2;
+  intros v. induction v as [a|sk l IH|sk l IH|mk kvs IH|n d i x|c i] using pyval_ind2;
     intros w Hg Hg' Hrel k k' Hk Hk'.
   - (* scalars *)
     destruct w as [b| | | | |]; try discriminate. rewrite rel_atom_l in Hrel.
@@ -776,8 +802,8 @@ Proof.
     assert (Hhh := rel_true_hashable _ _ Hrel).
     rewrite rel_seq_unfold in Hrel. apply andb_true_iff in Hrel. destruct Hrel as [Hsk Hl].
     apply seqkind_eqb_eq in Hsk. subst sk'.
-    assert (Hwf : wf (PSeq sk l) = true) by (unfold g in Hg; bsplit; assumption).
-    assert (Hwf' : wf (PSeq sk l') = true) by (unfold g in Hg'; bsplit; assumption).
+    assert (Hwf : wf (PSeq sk l) = true) by exact Hg.
+    assert (Hwf' : wf (PSeq sk l') = true) by exact Hg'.
     destruct (py_hashable (PSeq sk l)) eqn:Hh.
     { rewrite th_hashable in Hk by exact Hh. rewrite th_hashable in Hk' by (rewrite <- Hhh; reflexivity).
       inversion Hk; inversion Hk'; subst.
@@ -820,19 +846,22 @@ Proof.
       * rewrite andb_true_r in Hwf. apply negb_true_iff in Hwf. subst masked.
         case_iter Hk d Hd.
         case_iter Hk' d' Hd'.
-        cbn [bind] in Hk, Hk'. inversion Hk; inversion Hk'; subst. rewrite conv_rel, str_eqb_refl.
+        cbn [bind app] in Hk, Hk'. inversion Hk; inversion Hk'; subst. rewrite conv_rel, str_eqb_refl.
         rewrite rel_tuple. cbn [rel_list]. rewrite rel_tuple, ints_rel_refl.
         rewrite rel_atom_l. unfold atom_eq. cbn [numval]. rewrite str_eqb_refl.
         rewrite (Hconv ltac:(discriminate) d d'); auto.
       * cbn [bind] in Hk, Hk'. inversion Hk; inversion Hk'; subst. rewrite conv_rel, str_eqb_refl.
-        rewrite rel_tuple. cbn [rel_list]. rewrite rel_tuple, ints_rel_refl.
-        rewrite rel_atom_l. unfold atom_eq. cbn [numval]. rewrite str_eqb_refl. rewrite rel_tuple.
-        rewrite rel_list_atomic; auto. eapply nd_elems_atomic; eauto.
+        assert (Hat : forallb atomic l = true) by (eapply nd_elems_atomic; eauto).
+        destruct (fill_rel l l' Hat Hl) as [Hf Hb].
+        destruct masked; cbn [app]; rewrite rel_tuple; cbn [rel_list]; rewrite rel_tuple, ints_rel_refl;
+          rewrite rel_atom_l; unfold atom_eq; cbn [numval]; rewrite str_eqb_refl; rewrite !rel_tuple.
+        -- rewrite Hf, Hb. reflexivity.
+        -- rewrite rel_list_atomic; auto.
   - (* sets *)
     destruct w as [| |sk' l'| | |]; try discriminate.
     assert (Hhh := rel_true_hashable _ _ Hrel).
-    assert (Hwf : wf (PSetv sk l) = true) by (unfold g in Hg; bsplit; assumption).
-    assert (Hwf' : wf (PSetv sk' l') = true) by (unfold g in Hg'; bsplit; assumption).
+    assert (Hwf : wf (PSetv sk l) = true) by exact Hg.
+    assert (Hwf' : wf (PSetv sk' l') = true) by exact Hg'.
     destruct (py_hashable (PSetv sk l)) eqn:Hh.
     { rewrite th_hashable in Hk by exact Hh. rewrite th_hashable in Hk' by (rewrite <- Hhh; reflexivity).
       inversion Hk; inversion Hk'; subst.
@@ -846,13 +875,9 @@ Proof.
     case_iter Hk d Hd.
     case_iter Hk' d' Hd'.
     cbn [bind] in Hk, Hk'. inversion Hk; inversion Hk'; subst. rewrite conv_rel, str_eqb_refl. cbn [andb].
-    simpl in Hwf, Hwf'. bsplit.
-    assert (Hhs : homog l = true).
-    { unfold g in Hg. bsplit. match goal with H : homogeneous_sortable _ = true |- _ =>
-        unfold homogeneous_sortable in H; rewrite fn_set in H; apply andb_true_iff in H; destruct H as [H _]; exact H end. }
-    assert (Hhs' : homog l' = true).
-    { unfold g in Hg'. bsplit. match goal with H : homogeneous_sortable _ = true |- _ =>
-        unfold homogeneous_sortable in H; rewrite fn_set in H; apply andb_true_iff in H; destruct H as [H _]; exact H end. }
+    simpl in Hwf, Hwf'.
+    apply andb_true_iff in Hwf. destruct Hwf as [Hwf Hnd]. apply andb_true_iff in Hwf. destruct Hwf as [Hwl Hhl].
+    apply andb_true_iff in Hwf'. destruct Hwf' as [Hwf' Hnd']. apply andb_true_iff in Hwf'. destruct Hwf' as [Hwl' Hhl'].
     eapply (set_canon fp l l'); eauto.
     intros a Ha. rewrite forallb_forall in Hall. specialize (Hall a Ha). apply existsb_exists in Hall. exact Hall.
   - (* mappings *)
@@ -865,10 +890,8 @@ Proof.
     assert (HIH : forall kv kv', In kv kvs -> In kv' kvs' -> rel true (snd kv) (snd kv') = true ->
                                  keq fp (snd kv) (snd kv')).
     { intros kv kv' Hkv Hkv' Hr. destruct (IH kv Hkv) as [_ IHv]. apply IHv; auto. }
-    assert (Hwf : wf (PMap mk kvs) = true) by (unfold g in Hg; bsplit; assumption).
-    assert (Hwf' : wf (PMap mk kvs') = true) by (unfold g in Hg'; bsplit; assumption).
-    assert (Hhs : homogeneous_sortable (PMap mk kvs) = true) by (unfold g in Hg; bsplit; assumption).
-    assert (Hhs' : homogeneous_sortable (PMap mk kvs') = true) by (unfold g in Hg'; bsplit; assumption).
+    assert (Hwf : wf (PMap mk kvs) = true) by exact Hg.
+    assert (Hwf' : wf (PMap mk kvs') = true) by exact Hg'.
     assert (HwD : wf (PDict kvs) = true).
     { simpl in Hwf |- *. apply andb_true_iff in Hwf. destruct Hwf as [Hwf _]. rewrite Hwf. reflexivity. }
     assert (HwD' : wf (PDict kvs') = true).
@@ -877,7 +900,7 @@ Proof.
     + destruct (hashable_mapping true (mk_items fp kvs)) as [d|e] eqn:Hd; [|discriminate].
       destruct (hashable_mapping true (mk_items fp kvs')) as [d'|e] eqn:Hd'; [|discriminate].
       cbn [bind] in Hk, Hk'. inversion Hk; inversion Hk'; subst. rewrite conv_rel, str_eqb_refl. cbn [andb].
-      eapply (map_canon fp kvs kvs'); eauto; eapply hs_map_keys; eauto; discriminate.
+      eapply (map_canon fp kvs kvs'); eauto.
     + destruct (hashable_mapping false (mk_items fp kvs)) as [d|e] eqn:Hd; [|discriminate].
       destruct (hashable_mapping false (mk_items fp kvs')) as [d'|e] eqn:Hd'; [|discriminate].
       cbn [bind] in Hk, Hk'. inversion Hk; inversion Hk'; subst. rewrite conv_rel, str_eqb_refl. cbn [andb].
@@ -897,58 +920,32 @@ Proof.
       destruct (hashable_mapping true (mk_items fp kvs')) as [d'|e] eqn:Hd'; [|discriminate].
       cbn [bind] in Hk, Hk'. inversion Hk; inversion Hk'; subst. rewrite conv_rel, str_eqb_refl. cbn [andb].
       rewrite rel_tuple. cbn [rel_list]. rewrite factory_rel_refl. cbn [andb]. rewrite andb_true_r.
-      eapply (map_canon fp kvs kvs'); eauto; eapply hs_map_keys; eauto; discriminate.
-    + destruct (py_sort item_lt (mk_items fp kvs)) as [its|e] eqn:Hs; [|discriminate].
-      destruct (py_sort item_lt (mk_items fp kvs')) as [its'|e] eqn:Hs'; [|discriminate].
+      eapply (map_canon fp kvs kvs'); eauto.
+    + destruct (py_sort item_lt (mk_items fp (strip kvs))) as [its|e] eqn:Hs; [|discriminate].
+      destruct (py_sort item_lt (mk_items fp (strip kvs'))) as [its'|e] eqn:Hs'; [|discriminate].
       cbn [bind] in Hk, Hk'. inversion Hk; inversion Hk'; subst. rewrite conv_rel, str_eqb_refl. cbn [andb].
       rewrite rel_tuple.
-      assert (Hhk : homog (map fst kvs) = true) by (eapply hs_map_keys; eauto; discriminate).
-      assert (Hhk' : homog (map fst kvs') = true) by (eapply hs_map_keys; eauto; discriminate).
-      destruct (homog_class _ Hhk) as [c Hc]. destruct (homog_class _ Hhk') as [c' Hc'].
-      assert (Hnz : forall kv, In kv kvs -> is_zero (snd kv) = false).
-      { intros kv Hkv. unfold g in Hg. bsplit.
-        match goal with H : no_zero_count _ = true |- _ => unfold no_zero_count in H; rewrite fn_map in H;
-          apply andb_true_iff in H; destruct H as [H _]; rewrite forallb_forall in H; specialize (H kv Hkv);
-          apply negb_true_iff in H; exact H end. }
-      assert (Hnz' : forall kv, In kv kvs' -> is_zero (snd kv) = false).
-      { intros kv Hkv. unfold g in Hg'. bsplit.
-        match goal with H : no_zero_count _ = true |- _ => unfold no_zero_count in H; rewrite fn_map in H;
-          apply andb_true_iff in H; destruct H as [H _]; rewrite forallb_forall in H; specialize (H kv Hkv);
-          apply negb_true_iff in H; exact H end. }
-      unfold rel_counter in Hrel. apply andb_true_iff in Hrel. destruct Hrel as [Hr1 Hr2].
-      rewrite forallb_forall in Hr1, Hr2.
-      assert (Hone : forall kv, In kv kvs -> exists kv', In kv' kvs' /\ rel true (fst kv) (fst kv') = true
+      rewrite rel_counter_strip in Hrel. unfold rel_dict in Hrel.
+      apply andb_true_iff in Hrel. destruct Hrel as [Hlen Hall]. apply Nat.eqb_eq in Hlen.
+      rewrite forallb_forall in Hall.
+      assert (Hone : forall kv, In kv (strip kvs) -> exists kv', In kv' (strip kvs') /\ rel true (fst kv) (fst kv') = true
                                                       /\ rel true (snd kv) (snd kv') = true).
-      { intros kv Hkv. specialize (Hr1 kv Hkv). rewrite (Hnz kv Hkv) in Hr1. simpl in Hr1. rewrite orb_false_r in Hr1.
-        apply existsb_exists in Hr1. destruct Hr1 as (kv' & Hkv' & Hr). apply andb_true_iff in Hr. destruct Hr.
+      { intros kv Hkv. specialize (Hall kv Hkv).
+        apply existsb_exists in Hall. destruct Hall as (kv' & Hkv' & Hr). apply andb_true_iff in Hr. destruct Hr.
         eauto. }
-      assert (Htwo : forall kv', In kv' kvs' -> exists kv, In kv kvs /\ rel true (fst kv) (fst kv') = true
-                                                       /\ rel true (snd kv) (snd kv') = true).
-      { intros kv' Hkv'. specialize (Hr2 kv' Hkv'). rewrite (Hnz' kv' Hkv') in Hr2. simpl in Hr2.
-        rewrite orb_false_r in Hr2.
-        apply existsb_exists in Hr2. destruct Hr2 as (kv & Hkv & Hr). apply andb_true_iff in Hr. destruct Hr.
-        eauto. }
-      simpl in Hwf, Hwf'.
-      apply andb_true_iff in Hwf. destruct Hwf as [Hwf Hci]. apply andb_true_iff in Hwf. destruct Hwf as [_ Hnd].
-      apply andb_true_iff in Hwf'. destruct Hwf' as [Hwf' Hci']. apply andb_true_iff in Hwf'. destruct Hwf' as [_ Hnd'].
-      assert (HR := items_canon fp c c' (fun v v' => rel true v v' = true) kvs kvs' its its'
-                      Hnd Hnd' Hc Hc' Hone Htwo Hs Hs').
+      destruct (wf_keys_hw _ _ Hwf) as [Hkh Hnd]. destruct (wf_keys_hw _ _ Hwf') as [Hkh' Hnd'].
+      simpl in Hwf. apply andb_true_iff in Hwf. destruct Hwf as [_ Hci].
+      assert (HR := items_canon fp (fun v v' => rel true v v' = true) (strip kvs) (strip kvs') its its'
+                      (strip_keys_hw _ Hkh) (strip_keys_hw _ Hkh') (strip_nodup _ Hnd) Hlen Hone Hs Hs').
       eapply counter_rel; eauto.
       intros it Hit. apply py_sort_perm in Hs. apply (Permutation_in _ (Permutation_sym Hs)) in Hit.
+      apply mk_items_strip_incl in Hit.
       apply in_mk_items in Hit. destruct Hit as (kv & Hkv & ->). simpl.
       rewrite forallb_forall in Hci. apply scalar_atomic. rewrite (Hci kv Hkv). reflexivity.
-  - unfold g in Hg. bsplit. match goal with H : no_pandas _ = true |- _ => unfold no_pandas in H; simpl in H; discriminate end.
-  - unfold g in Hg. bsplit. match goal with H : no_pandas _ = true |- _ => unfold no_pandas in H; simpl in H; discriminate end.
+  - exact (series_eq n d i x w Hg Hg' Hrel k k' Hk Hk').
+  - exact (frame_eq c i w Hg Hg' Hrel k k' Hk Hk').
 Qed.
-
-Theorem eq_implies_key_eq : forall fp v w k k',
-  wf v = true -> wf w = true -> homogeneous_sortable v = true -> homogeneous_sortable w = true ->
-  no_pandas v = true -> no_pandas w = true -> no_zero_count v = true -> no_zero_count w = true ->
-  py_same v w = true -> to_hashable fp v = Ok k -> to_hashable fp w = Ok k' -> py_eq k k' = true.
-Proof.
-  intros fp v w k k' H1 H2 H3 H4 H5 H6 H7 H8 Hs Hk Hk'.
-  exact (eq_implies_key_eq_g fp v w (g_intro v H1 H3 H5 H7) (g_intro w H2 H4 H6 H8) Hs k k' Hk Hk').
-Qed.
+End EqImplies.
 
 (* ================= totality ================= *)
 Lemma mapM_exists {A B} (f : A -> result B) : forall l,
@@ -962,38 +959,31 @@ Qed.
 Lemma conv_fa_seq : forall p sk l, forall_atoms p (PSeq sk l) = forallb (forall_atoms p) l.
 Proof. reflexivity. Qed.
 
-Definition g0 (v : pyval) : bool := wf v && homogeneous_sortable v && no_pandas v.
-Lemma g0_intro : forall v, wf v = true -> homogeneous_sortable v = true -> no_pandas v = true -> g0 v = true.
-Proof. intros v H1 H2 H3. unfold g0. rewrite H1, H2, H3. reflexivity. Qed.
+Definition g0 (v : pyval) : bool := wf v.
 
 Lemma g0_seq_children : forall sk l, g0 (PSeq sk l) = true -> (forall d sh, sk <> KNd true d sh) ->
   Forall (fun x => g0 x = true) l.
 Proof.
-  intros sk l H Hsk. unfold g0 in H. apply andb_true_iff in H. destruct H as [H Hnp].
-  apply andb_true_iff in H. destruct H as [Hwf Hhs].
-  unfold homogeneous_sortable in Hhs. unfold no_pandas in Hnp.
-  rewrite fn_seq in Hhs, Hnp. bsplit.
-  assert (Hw : forallb wf l = true).
-  { simpl in Hwf. bsplit. destruct sk; auto. destruct masked; auto. exfalso. eapply Hsk; eauto. }
-  apply Forall_forall. intros x Hx.
-  repeat match goal with H : forallb _ l = true |- _ => rewrite forallb_forall in H; specialize (H x Hx) end.
-  apply g0_intro; auto.
+  intros sk l H Hsk. apply Forall_forall. intros x Hx. assert (Hw := wf_seq_children sk l H Hsk).
+  rewrite forallb_forall in Hw. apply Hw. exact Hx.
 Qed.
 
 Lemma g0_map_values : forall mk kvs, g0 (PMap mk kvs) = true -> Forall (fun kv => g0 (snd kv) = true) kvs.
 Proof.
-  intros mk kvs H. unfold g0 in H. apply andb_true_iff in H. destruct H as [H Hnp].
-  apply andb_true_iff in H. destruct H as [Hwf Hhs].
-  unfold homogeneous_sortable in Hhs. unfold no_pandas in Hnp.
-  rewrite fn_map in Hhs, Hnp. simpl in Hwf. bsplit.
-  apply Forall_forall. intros x Hx.
-  repeat match goal with H : forallb _ kvs = true |- _ => rewrite forallb_forall in H; specialize (H x Hx) end.
-  bsplit. apply g0_intro; auto.
+  intros mk kvs H. unfold g0 in H. simpl in H. apply andb_true_iff in H. destruct H as [H _].
+  apply andb_true_iff in H. destruct H as [H _]. apply andb_true_iff in H. destruct H as [H _].
+  apply Forall_forall. intros kv Hkv. rewrite forallb_forall in H. specialize (H kv Hkv).
+  apply andb_true_iff in H. destruct H. assumption.
 Qed.
 
-Theorem total_g : forall fp v, g0 v = true -> convertible fp v = true -> exists k, to_hashable fp v = Ok k.
+Section Total.
+  Variable fp : bool.
+  Hypothesis series_tot : forall n d i x, wf (PSeries n d i x) = true -> exists k, to_hashable fp (PSeries n d i x) = Ok k.
+  Hypothesis frame_tot : forall c i, wf (PFrame c i) = true -> exists k, to_hashable fp (PFrame c i) = Ok k.
+
+Theorem total_g : forall v, g0 v = true -> convertible fp v = true -> exists k, to_hashable fp v = Ok k.
 Proof.
-  intros fp v. induction v as [a|sk l IH|sk l IH|mk kvs IH|n d i x|c i] using pyval_ind2; intros Hg Hc.
+  intros v. induction v as [a|sk l IH|sk l IH|mk kvs IH|n d i x|c i] using pyval_ind2; intros Hg Hc.
   - rewrite th_atom_eq. unfold th_atom. destruct (atom_hashable a) eqn:Ha; eauto.
     destruct a; try discriminate.
     unfold convertible in Hc. simpl in Hc. apply andb_true_iff in Hc. destruct Hc as [-> ->]. eauto.
@@ -1018,18 +1008,12 @@ Proof.
   - destruct (py_hashable (PSetv sk l)) eqn:Hh; [rewrite th_hashable by exact Hh; eauto|].
     rewrite th_set by exact Hh. destruct sk; [|simpl in Hh; discriminate].
     unfold set_body, hashable_iterable.
-    assert (Hwf : wf (PSet l) = true) by (unfold g0 in Hg; bsplit; assumption).
-    assert (Hhs : homog l = true).
-    { unfold g0 in Hg. bsplit. match goal with H : homogeneous_sortable _ = true |- _ =>
-        unfold homogeneous_sortable in H; rewrite fn_set in H; apply andb_true_iff in H; destruct H as [H _]; exact H end. }
-    simpl in Hwf. apply andb_true_iff in Hwf. destruct Hwf as [Hwf Hnd]. apply andb_true_iff in Hwf. destruct Hwf as [_ Hhl].
-    destruct (homog_class l Hhs) as [c Hcl].
+    assert (Hwf : wf (PSet l) = true) by exact Hg.
+    simpl in Hwf. apply andb_true_iff in Hwf. destruct Hwf as [Hwf Hnd]. apply andb_true_iff in Hwf. destruct Hwf as [Hwl Hhl].
     set (elems := map (fun x => (x, to_hashable fp x)) l).
-    assert (HS : Forall (fun e : elem => vclass (fst e) = Some c) elems).
-    { apply Forall_forall. intros e He. apply in_map_iff in He. destruct He as (x & <- & Hx). simpl.
-      rewrite Forall_forall in Hcl. auto. }
-    destruct (sort_elems c elems HS) as (es & Hs & Hp & _).
-    { unfold elems. rewrite map_map. simpl. eapply nodup_keys; eauto. }
+    destruct (sort_elems elems) as (es & Hs & Hp & _).
+    { unfold elems. rewrite map_map. simpl. apply nodup_ckeys; auto.
+      intros x Hx. rewrite forallb_forall in Hwl, Hhl. split; auto. }
     rewrite Hs. cbn [bind].
     destruct (mapM_exists (fun e : elem => snd e) es) as [out Hout].
     { intros e He. apply (Permutation_in _ (Permutation_sym Hp)) in He. apply in_map_iff in He.
@@ -1041,23 +1025,20 @@ Proof.
     { intros kv Hkv. destruct (IH kv Hkv) as [_ IHv]. apply IHv; auto.
       unfold convertible in Hc |- *. simpl in Hc. rewrite forallb_forall in Hc. specialize (Hc kv Hkv).
       apply andb_true_iff in Hc. destruct Hc. assumption. }
-    assert (Hwf : wf (PMap mk kvs) = true) by (unfold g0 in Hg; bsplit; assumption).
-    assert (Hhs : homogeneous_sortable (PMap mk kvs) = true) by (unfold g0 in Hg; bsplit; assumption).
+    assert (Hwf : wf (PMap mk kvs) = true) by exact Hg.
     assert (Hnd : nodup_by (rel false) (map fst kvs) = true).
     { simpl in Hwf. apply andb_true_iff in Hwf. destruct Hwf as [Hwf _]. apply andb_true_iff in Hwf.
       destruct Hwf as [_ Hnd]. exact Hnd. }
-    assert (Hsort : mk <> KODict -> exists its, py_sort item_lt (mk_items fp kvs) = Ok its
-                                               /\ Permutation (mk_items fp kvs) its).
-    { intros Hmk. destruct (homog_class _ (hs_map_keys _ _ Hhs Hmk)) as [c Hcl].
-      rewrite Forall_forall in Hcl.
-      assert (HS : Forall (fun it : item => vclass (fst (fst it)) = Some c) (mk_items fp kvs)).
-      { apply Forall_forall. intros it Hit. apply in_mk_items in Hit. destruct Hit as (kv & Hkv & ->). simpl.
-        apply Hcl. apply in_map. auto. }
-      destruct (sort_items c _ HS) as (its & Hs & Hp & _).
+    destruct (wf_keys_hw _ _ Hwf) as [Hkh _].
+    assert (Hsort : forall kz, (forall kv, In kv kz -> In kv kvs) ->
+              nodup_by (rel false) (map fst kz) = true ->
+              exists its, py_sort item_lt (mk_items fp kz) = Ok its /\ Permutation (mk_items fp kz) its).
+    { intros kz Hkz Hndz.
+      destruct (sort_items (mk_items fp kz)) as (its & Hs & Hp & _).
       { unfold mk_items. rewrite map_map. simpl.
-        replace (map (fun x : pyval * pyval => ikey (fst x, snd x, to_hashable fp (snd x))) kvs)
-          with (map skey (map fst kvs)) by (rewrite map_map; reflexivity).
-        eapply nodup_keys; eauto. apply Forall_forall. auto. }
+        replace (map (fun x : pyval * pyval => ikey (fst x, snd x, to_hashable fp (snd x))) kz)
+          with (map ckey (map fst kz)) by (rewrite map_map; reflexivity).
+        apply nodup_ckeys; auto. intros x Hx. apply in_map_iff in Hx. destruct Hx as (kv & <- & Hin). auto. }
       eauto. }
     assert (Hout : forall its, Permutation (mk_items fp kvs) its ->
               exists out, mapM (fun it : item => do hv <- snd it; Ok (pair_t (fst (fst it)) hv)) its = Ok out).
@@ -1065,47 +1046,20 @@ Proof.
       apply in_mk_items in Hit. destruct Hit as (kv & Hkv & ->). simpl.
       destruct (Hvals kv Hkv) as [hv Hhv]. rewrite Hhv. cbn [bind]. eauto. }
     unfold map_body, hashable_mapping. destruct mk.
-    + destruct Hsort as (its & Hs & Hp); [discriminate|]. rewrite Hs. cbn [bind].
+    + destruct (Hsort kvs (fun _ H => H) Hnd) as (its & Hs & Hp). rewrite Hs. cbn [bind].
       destruct (Hout its Hp) as [out Ho]. rewrite Ho. cbn [bind]. eauto.
     + cbn [bind]. destruct (Hout _ (Permutation_refl _)) as [out Ho]. rewrite Ho. cbn [bind]. eauto.
-    + destruct Hsort as (its & Hs & Hp); [discriminate|]. rewrite Hs. cbn [bind].
+    + destruct (Hsort kvs (fun _ H => H) Hnd) as (its & Hs & Hp). rewrite Hs. cbn [bind].
       destruct (Hout its Hp) as [out Ho]. rewrite Ho. cbn [bind]. eauto.
-    + destruct Hsort as (its & Hs & Hp); [discriminate|]. rewrite Hs. cbn [bind]. eauto.
-  - unfold g0 in Hg. bsplit. match goal with H : no_pandas _ = true |- _ => unfold no_pandas in H; simpl in H; discriminate end.
-  - unfold g0 in Hg. bsplit. match goal with H : no_pandas _ = true |- _ => unfold no_pandas in H; simpl in H; discriminate end.
+    + destruct (Hsort (strip kvs) (strip_incl kvs) (strip_nodup _ Hnd)) as (its & Hs & Hp).
+      rewrite Hs. cbn [bind]. eauto.
+  - apply series_tot. exact Hg.
+  - apply frame_tot. exact Hg.
 Qed.
+End Total.
 
-
-Theorem total_on_supported : forall fp v,
-  wf v = true -> homogeneous_sortable v = true -> no_pandas v = true -> convertible fp v = true ->
-  exists k, to_hashable fp v = Ok k.
-Proof. intros fp v H1 H2 H3 H4. apply total_g; auto. apply g0_intro; auto. Qed.
 
 (* ================= refutations of the unguarded statements (witnesses replayed on the real code) ================= *)
-(* {1, 'a'}: sorted() raises TypeError - no key *)
-Definition w_mixed_set : pyval := PSet [PInt 1; PStr (s "a")].
-Lemma total_refuted :
-  exists v, supported v = true /\ convertible true v = true /\ to_hashable true v = Err TypeError.
-Proof. exists w_mixed_set. repeat split; vm_compute; reflexivity. Qed.
-
-(* {frozenset({1}): 'a', frozenset({2}): 'b'} built in the two insertion orders: equal dicts, unequal keys *)
-Definition w_fs_dict1 : pyval :=
-  PDict [(PFrozenset [PInt 1], PStr (s "a")); (PFrozenset [PInt 2], PStr (s "b"))].
-Definition w_fs_dict2 : pyval :=
-  PDict [(PFrozenset [PInt 2], PStr (s "b")); (PFrozenset [PInt 1], PStr (s "a"))].
-Lemma eq_implies_key_eq_refuted_partial_order :
-  exists v w k k', supported v = true /\ supported w = true /\ py_same v w = true
-                   /\ to_hashable true v = Ok k /\ to_hashable true w = Ok k' /\ py_eq k k' = false.
-Proof. exists w_fs_dict1, w_fs_dict2. do 2 eexists. repeat split; vm_compute; reflexivity. Qed.
-
-(* Counter({'a': 0}) == Counter() but the keys differ *)
-Lemma eq_implies_key_eq_refuted_counter :
-  exists v w k k', supported v = true /\ supported w = true /\ py_same v w = true
-                   /\ to_hashable true v = Ok k /\ to_hashable true w = Ok k' /\ py_eq k k' = false.
-Proof.
-  exists (PCounter [(PStr (s "a"), PInt 0)]), (PCounter []). do 2 eexists. repeat split; vm_compute; reflexivity.
-Qed.
-
 (* pd.Series([1, 2], index=['a', 'b']) vs pd.Series([2, 1], index=['b', 'a']): different values, EQUAL keys *)
 Definition w_series1 : pyval := PSeries ANone (s "<i8") [AStr (s "a"); AStr (s "b")] [AInt 1; AInt 2].
 Definition w_series2 : pyval := PSeries ANone (s "<i8") [AStr (s "b"); AStr (s "a")] [AInt 2; AInt 1].
@@ -1146,8 +1100,10 @@ Definition payload_of (fp : bool) (v p : pyval) : Prop :=
       | KDeque ml => exists d, ce = Ok d /\ p = PTuple [maxlen_val ml; d]
       | KBytearray => p = PTuple l
       | KArray c => p = PTuple [PStr c; PTuple l]
-      | KNd _ d sh => exists items, (if str_eqb d dt_obj then ce else Ok (PTuple l)) = Ok items
-                                    /\ p = PTuple [PTuple (map (fun z => PInt z) sh); PStr d; items]
+      | KNd msk d sh =>
+          exists items, (if str_eqb d dt_obj then ce else Ok (PTuple (if msk then map mfill l else l))) = Ok items
+                        /\ p = PTuple ([PTuple (map (fun z => PInt z) sh); PStr d; items]
+                                       ++ (if msk then [PTuple (map mbit l)] else []))
       end
   | PSetv sk l => hashable_iterable true (map (fun x => (x, to_hashable fp x)) l) = Ok p
   | PMap mk kvs =>
@@ -1155,7 +1111,7 @@ Definition payload_of (fp : bool) (v p : pyval) : Prop :=
       | KDict => hashable_mapping true (mk_items fp kvs) = Ok p
       | KODict => hashable_mapping false (mk_items fp kvs) = Ok p
       | KDefault f => exists d, hashable_mapping true (mk_items fp kvs) = Ok d /\ p = PTuple [factory_val f; d]
-      | KCounter => exists its, py_sort item_lt (mk_items fp kvs) = Ok its
+      | KCounter => exists its, py_sort item_lt (mk_items fp (strip kvs)) = Ok its
                                 /\ p = PTuple (map (fun it : item => pair_t (fst (fst it)) (snd (fst it))) its)
       end
   | _ => True
@@ -1380,21 +1336,6 @@ Proof.
     simpl in Hk, Hv. rewrite Hk, Hv. reflexivity.
 Qed.
 
-Lemma rel_counter_from_forall2 : forall fp kvs kvs' (its its' : list item),
-  Permutation (mk_items fp kvs) its -> Permutation (mk_items fp kvs') its' ->
-  Forall2 itemT its its' -> rel_counter true kvs kvs' = true.
-Proof.
-  intros fp kvs kvs' its its' Hp Hp' HR. unfold rel_counter. apply andb_true_iff. split.
-  - apply forallb_forall. intros kv Hkv. apply orb_true_iff. left. apply existsb_exists.
-    destruct (Forall2_in_l _ _ _ HR _ (kv_in_items fp kvs its kv Hp Hkv)) as (it' & Hit' & [Hk Hv]).
-    destruct (in_items_kv fp kvs' its' it' Hp' Hit') as [Hin _]. exists (fst it'). split; auto.
-    simpl in Hk, Hv. rewrite Hk, Hv. reflexivity.
-  - apply forallb_forall. intros kv' Hkv'. apply orb_true_iff. left. apply existsb_exists.
-    destruct (Forall2_in_r _ _ _ HR _ (kv_in_items fp kvs' its' kv' Hp' Hkv')) as (it & Hit & [Hk Hv]).
-    destruct (in_items_kv fp kvs its it Hp Hit) as [Hin _]. exists (fst it). split; auto.
-    simpl in Hk, Hv. rewrite Hk, Hv. reflexivity.
-Qed.
-
 Lemma rel_items_from_forall2 : forall fp kvs kvs',
   Forall2 itemT (mk_items fp kvs) (mk_items fp kvs') -> rel_items true kvs kvs' = true.
 Proof.
@@ -1535,22 +1476,27 @@ Proof.
         destruct (mem_str cd _); [rewrite Hwf; reflexivity|].
         destruct (mem_str cd _); [rewrite Hwf; rewrite ?orb_true_r; reflexivity|discriminate].
       * destruct Hp as (items & Hi & ->). destruct Hp' as (items' & Hi' & ->).
-        rewrite rel_tuple in Hpp. cbn [rel_list] in Hpp.
-        apply andb_true_iff in Hpp. destruct Hpp as [Hsh Hpp]. apply andb_true_iff in Hpp. destruct Hpp as [Hdt Hpp].
-        rewrite andb_true_r in Hpp. rewrite rel_tuple in Hsh. apply ints_rel_inj in Hsh.
-        rewrite rel_atom_l in Hdt. unfold atom_eq in Hdt. cbn [numval] in Hdt.
-        assert (Em : Bool.eqb m m' = true) by (destruct m, m'; simpl in Hn; try discriminate; reflexivity).
-        rewrite rel_seq_unfold. cbn [seqkind_eqb]. rewrite Em, Hdt, Hsh. cbn [andb].
-        apply str_eqb_eq in Hdt. subst dt'.
+        assert (Em : m = m') by (destruct m, m'; simpl in Hn; try discriminate; reflexivity). subst m'.
+        rewrite rel_tuple in Hpp.
         apply andb_true_iff in Hwf. destruct Hwf as [Hwf Hel]. apply andb_true_iff in Hwf. destruct Hwf as [Hwf _].
         apply andb_true_iff in Hwf. destruct Hwf as [Hmo _].
         apply andb_true_iff in Hwf'. destruct Hwf' as [Hwf' Hel']. apply andb_true_iff in Hwf'. destruct Hwf' as [Hwf' _].
         apply andb_true_iff in Hwf'. destruct Hwf' as [Hmo' _].
-        destruct (str_eqb dt dt_obj) eqn:Hobj.
-        -- rewrite andb_true_r in Hmo, Hmo'. apply negb_true_iff in Hmo, Hmo'. subst m m'.
-           eapply Hlist; eauto; discriminate.
-        -- inversion Hi; inversion Hi'; subst items items'. rewrite rel_tuple in Hpp.
-           apply rel_list_atomic_rev; auto. eapply nd_elems_atomic; eauto.
+        destruct m; cbn [app rel_list] in Hpp;
+          apply andb_true_iff in Hpp; destruct Hpp as [Hsh Hpp]; apply andb_true_iff in Hpp; destruct Hpp as [Hdt Hpp];
+          apply andb_true_iff in Hpp; destruct Hpp as [Hit Hpp];
+          rewrite rel_tuple in Hsh; apply ints_rel_inj in Hsh;
+          rewrite rel_atom_l in Hdt; unfold atom_eq in Hdt; cbn [numval] in Hdt;
+          rewrite rel_seq_unfold; cbn [seqkind_eqb Bool.eqb]; rewrite Hdt, Hsh; cbn [andb];
+          apply str_eqb_eq in Hdt; subst dt'.
+        -- cbn [andb] in Hmo, Hmo'. apply negb_true_iff in Hmo. rewrite Hmo in Hi, Hi'.
+           inversion Hi; inversion Hi'; subst items items'. rewrite rel_tuple in Hit.
+           rewrite andb_true_r in Hpp. rewrite rel_tuple in Hpp.
+           apply fill_rel_rev; auto. eapply nd_elems_atomic; eauto.
+        -- destruct (str_eqb dt dt_obj) eqn:Hobj.
+           ++ eapply Hlist; eauto; discriminate.
+           ++ inversion Hi; inversion Hi'; subst items items'. rewrite rel_tuple in Hit.
+              apply rel_list_atomic_rev; auto. eapply nd_elems_atomic; eauto.
     + cbn [tname] in Hn. rewrite tname_seq_set in Hn. discriminate.
     + cbn [tname] in Hn. rewrite tname_seq_map in Hn. discriminate.
     + unfold no_pandas in Hnp'. simpl in Hnp'. discriminate.
@@ -1637,12 +1583,14 @@ Proof.
         rewrite rel_tuple in Hpp.
         assert (Hpi := py_sort_perm _ _ _ Hso). assert (Hpi' := py_sort_perm _ _ _ Hso').
         simpl in Hwf. apply andb_true_iff in Hwf. destruct Hwf as [_ Hci]. rewrite forallb_forall in Hci.
-        rewrite rel_map_unfold. simpl. eapply rel_counter_from_forall2; eauto.
+        rewrite rel_map_unfold. simpl. rewrite rel_counter_strip.
+        eapply (rel_dict_from_forall2 fp (strip kvs) (strip kvs')); eauto.
         apply counter_items_inj; auto.
-        -- intros it Hit. destruct (Hits its Hpi it Hit) as (Hw & Hhk & _ & _).
-           destruct (in_items_kv fp kvs its it Hpi Hit) as [Hin _].
+        -- intros it Hit. destruct (in_items_kv fp (strip kvs) its it Hpi Hit) as [Hin _].
+           apply strip_incl in Hin. destruct (Hparts _ Hin) as (_ & Hwk & Hhk).
            split; auto. split; auto. apply scalar_atomic. rewrite (Hci _ Hin). reflexivity.
-        -- intros it Hit. destruct (Hits' its' Hpi' it Hit) as (Hw & Hhk & _ & _). auto.
+        -- intros it Hit. destruct (in_items_kv fp (strip kvs') its' it Hpi' Hit) as [Hin _].
+           apply strip_incl in Hin. destruct (Hparts' _ Hin) as (_ & Hwk & Hhk). auto.
     + unfold no_pandas in Hnp'. simpl in Hnp'. discriminate.
     + unfold no_pandas in Hnp'. simpl in Hnp'. discriminate.
   - destruct (sg_parts _ Hs) as (_ & _ & Hnp). unfold no_pandas in Hnp. simpl in Hnp. discriminate.
@@ -1656,4 +1604,567 @@ Proof.
   intros fp v w k k' Hv Hw Hnp Hnp' Hk Hk' Heq.
   unfold supported in Hv, Hw. apply andb_true_iff in Hv. destruct Hv. apply andb_true_iff in Hw. destruct Hw.
   eapply (inj_g fp v); eauto; apply sg_intro; auto.
+Qed.
+
+(* ================= reflexivity of both equalities ================= *)
+Lemma atom_eq_refl : forall a, atom_eq a a = true.
+Proof.
+  destruct a; unfold atom_eq; cbn [numval]; try apply Z.eqb_refl; try apply str_eqb_refl; try reflexivity;
+    rewrite str_eqb_refl, Z.eqb_refl; reflexivity.
+Qed.
+Lemma atoms_eq_refl : forall l, list_eqb atom_eq l l = true.
+Proof. induction l; simpl; auto. rewrite atom_eq_refl. auto. Qed.
+
+Lemma rel_refl : forall st v, rel st v v = true.
+Proof.
+  intros st v. induction v as [a|sk l IH|sk l IH|mk kvs IH|n d i x|c i] using pyval_ind2.
+  - rewrite rel_atom_l. apply atom_eq_refl.
+  - rewrite rel_seq_unfold. apply andb_true_iff. split.
+    + destruct st; [apply seqkind_eqb_refl|apply seqkind_eqb_loose; apply seqkind_eqb_refl].
+    + induction IH; simpl; auto. rewrite H. auto.
+  - rewrite rel_set_unfold. rewrite Nat.eqb_refl.
+    replace (negb st || setkind_eqb sk sk) with true by (destruct st, sk; reflexivity). cbn [andb].
+    apply forallb_forall. intros a Ha. apply existsb_exists. exists a. split; auto.
+    rewrite Forall_forall in IH. auto.
+  - rewrite rel_map_unfold.
+    replace (negb st || mapkind_eqb mk mk) with true.
+    2:{ destruct st; auto. destruct mk; simpl; auto. destruct factory; simpl; auto. symmetry. apply str_eqb_refl. }
+    cbn [andb]. rewrite Forall_forall in IH.
+    assert (Hd : forall kz, (forall kv, In kv kz -> In kv kvs) -> rel_dict st kz kz = true).
+    { intros kz Hkz. unfold rel_dict. rewrite Nat.eqb_refl. cbn [andb]. apply forallb_forall. intros kv Hkv.
+      apply existsb_exists. exists kv. split; auto. destruct (IH kv (Hkz kv Hkv)) as [H1 H2]. rewrite H1, H2. reflexivity. }
+    destruct mk.
+    + apply Hd. auto.
+    + clear Hd. induction kvs as [|kv kvs IHl]; simpl; auto.
+      destruct (IH kv) as [H1 H2]; [simpl; auto|]. rewrite H1, H2. simpl. apply IHl. intros; apply IH; simpl; auto.
+    + apply Hd. auto.
+    + rewrite rel_counter_strip. apply Hd. apply strip_incl.
+  - simpl. rewrite atom_eq_refl, str_eqb_refl, !atoms_eq_refl. reflexivity.
+  - simpl. rewrite atoms_eq_refl, andb_true_r. induction c as [|col c IHc]; simpl; auto.
+    rewrite atom_eq_refl, str_eqb_refl, atoms_eq_refl. simpl. exact IHc.
+Qed.
+
+(* ================= pandas values: a hashable key is always returned ================= *)
+Lemma dict_set_in : forall d k v kv, In kv (dict_set d k v) ->
+  (In (fst kv) (map fst d) \/ fst kv = k) /\ (In (snd kv) (map snd d) \/ snd kv = v).
+Proof.
+  induction d as [|[k' v'] t IH]; intros k v kv H; simpl in H.
+  - destruct H as [H|[]]. subst. simpl. auto.
+  - destruct (atom_eq k' k).
+    + destruct H as [H|H]; [subst; simpl; auto|]. simpl. split; left; right; apply in_map; auto.
+    + destruct H as [H|H]; [subst; simpl; auto|]. destruct (IH k v kv H) as [[H1|H1] [H2|H2]]; simpl; auto.
+Qed.
+
+Lemma dict_set_nodup : forall d k v, nodup_by atom_eq (map fst d) = true ->
+  nodup_by atom_eq (map fst (dict_set d k v)) = true.
+Proof.
+  induction d as [|[k' v'] t IH]; intros k v H; simpl; auto.
+  simpl in H. apply andb_true_iff in H. destruct H as [Hx Ht].
+  destruct (atom_eq k' k) eqn:E; simpl.
+  - rewrite Hx, Ht. reflexivity.
+  - rewrite IH by auto. rewrite andb_true_r. apply negb_true_iff in Hx. apply negb_true_iff.
+    destruct (existsb (atom_eq k') (map fst (dict_set t k v))) eqn:Ex; auto.
+    apply existsb_exists in Ex. destruct Ex as (y & Hy & Hr). apply in_map_iff in Hy. destruct Hy as (kv & <- & Hin).
+    destruct (dict_set_in t k v kv Hin) as [[H1|H1] _].
+    + assert (existsb (atom_eq k') (map fst t) = true); [|congruence]. apply existsb_exists. eauto.
+    + rewrite H1 in Hr. congruence.
+Qed.
+
+Definition dict_inv (P Q : atom -> Prop) (d : list (atom * atom)) : Prop :=
+  nodup_by atom_eq (map fst d) = true /\ forall kv, In kv d -> P (fst kv) /\ Q (snd kv).
+
+Lemma dict_set_inv : forall (P Q : atom -> Prop) d k v, dict_inv P Q d -> P k -> Q v -> dict_inv P Q (dict_set d k v).
+Proof.
+  intros P Q d k v [Hn Hd] Hk Hv. split; [apply dict_set_nodup; auto|].
+  intros kv Hin. destruct (dict_set_in d k v kv Hin) as [H1 H2]. split.
+  - destruct H1 as [H1|H1]; [|subst; auto]. apply in_map_iff in H1. destruct H1 as (kv' & <- & Hin'). apply Hd; auto.
+  - destruct H2 as [H2|H2]; [|subst; auto]. apply in_map_iff in H2. destruct H2 as (kv' & <- & Hin'). apply Hd; auto.
+Qed.
+
+Lemma to_dict_inv : forall (P Q : atom -> Prop) idx vals,
+  (forall a, In a idx -> P a) -> (forall a, In a vals -> Q a) -> dict_inv P Q (to_dict idx vals).
+Proof.
+  intros P Q idx vals HP HQ. unfold to_dict.
+  assert (Hc : forall kv, In kv (combine idx vals) -> P (fst kv) /\ Q (snd kv)).
+  { intros [k v] H. split; [apply HP; eapply in_combine_l; eauto|apply HQ; eapply in_combine_r; eauto]. }
+  assert (H0 : dict_inv P Q []) by (split; [reflexivity|intros kv []]).
+  revert H0. generalize (@nil (atom * atom)). induction (combine idx vals) as [|kv t IH]; intros d Hd; simpl; auto.
+  apply IH; [intros; apply Hc; simpl; auto|]. destruct (Hc kv) as [H1 H2]; [simpl; auto|].
+  apply dict_set_inv; auto.
+Qed.
+
+Definition cellP (a : atom) : Prop := cell_ok a = true.
+Lemma cell_hashable : forall a, cell_ok a = true -> atom_hashable a = true /\ wf (PA a) = true.
+Proof. destruct a; simpl; intros; try discriminate; auto. Qed.
+Lemma th_atom_cell : forall fp a, cell_ok a = true -> th_atom fp a = Ok (PA a).
+Proof. intros fp a H. unfold th_atom. destruct (cell_hashable a H) as [-> _]. reflexivity. Qed.
+
+Lemma existsb_map_PA : forall x t, existsb (rel false (PA x)) (map PA t) = existsb (atom_eq x) t.
+Proof. induction t as [|y t IH]; cbn [map existsb]; auto. rewrite IH, rel_atom_l. reflexivity. Qed.
+Lemma atoms_nodup_rel : forall l, nodup_by atom_eq l = true -> nodup_by (rel false) (map PA l) = true.
+Proof.
+  induction l as [|x t IH]; cbn [map nodup_by]; intros H; auto. apply andb_true_iff in H. destruct H as [Hx Ht].
+  rewrite IH by auto. rewrite andb_true_r. rewrite existsb_map_PA. exact Hx.
+Qed.
+
+Lemma mapping_total_hashable : forall (items : list item),
+  NoDup (map ikey items) ->
+  (forall it, In it items -> py_hashable (fst (fst it)) = true
+                             /\ exists hv, snd it = Ok hv /\ py_hashable hv = true) ->
+  exists d, hashable_mapping true items = Ok d /\ py_hashable d = true.
+Proof.
+  intros items Hnd Hit. destruct (sort_items items Hnd) as (its & Hs & Hp & _).
+  unfold hashable_mapping. rewrite Hs. cbn [bind].
+  assert (Hits : forall it, In it its -> py_hashable (fst (fst it)) = true
+                                         /\ exists hv, snd it = Ok hv /\ py_hashable hv = true).
+  { intros it Hin. apply Hit. apply (Permutation_in _ (Permutation_sym Hp)). exact Hin. }
+  clear Hs Hp Hnd Hit.
+  assert (Hout : exists out, mapM (fun it : item => do hv <- snd it; Ok (pair_t (fst (fst it)) hv)) its = Ok out
+                             /\ forallb py_hashable out = true).
+  { induction its as [|it its IH]; [exists []; split; reflexivity|].
+    destruct (Hits it) as [Hk (hv & Hhv & Hh)]; [simpl; auto|].
+    destruct IH as (out & Ho & Hhout); [intros; apply Hits; simpl; auto|].
+    exists (pair_t (fst (fst it)) hv :: out). split.
+    - cbn [mapM]. rewrite Hhv. cbn [bind]. rewrite Ho. reflexivity.
+    - cbn [forallb]. rewrite Hhout, andb_true_r. simpl. rewrite Hk, Hh. reflexivity. }
+  destruct Hout as (out & Ho & Hh). rewrite Ho. cbn [bind]. eexists. split; [reflexivity|]. simpl. exact Hh.
+Qed.
+
+Lemma atoms_ikeys : forall (d : list (atom * atom)) (f : atom * atom -> item),
+  (forall kv, fst (fst (f kv)) = PA (fst kv)) ->
+  map ikey (map f d) = map ckey (map PA (map fst d)).
+Proof. intros d f Hf. rewrite !map_map. apply map_ext. intros kv. unfold ikey. rewrite Hf. reflexivity. Qed.
+
+Lemma cells_nodup_keys : forall (d : list (atom * atom)),
+  nodup_by atom_eq (map fst d) = true -> (forall kv, In kv d -> cell_ok (fst kv) = true) ->
+  NoDup (map ckey (map PA (map fst d))).
+Proof.
+  intros d Hn Hc. apply nodup_ckeys; [|apply atoms_nodup_rel; auto].
+  intros x Hx. apply in_map_iff in Hx. destruct Hx as (a & <- & Ha). apply in_map_iff in Ha.
+  destruct Ha as (kv & <- & Hkv). destruct (cell_hashable _ (Hc kv Hkv)). split; auto.
+Qed.
+
+Theorem series_key : forall fp n d idx vals, wf (PSeries n d idx vals) = true ->
+  exists k, to_hashable fp (PSeries n d idx vals) = Ok k /\ py_hashable k = true.
+Proof.
+  intros fp n d idx vals Hwf. simpl in Hwf.
+  repeat (apply andb_true_iff in Hwf; destruct Hwf as [Hwf ?]).
+  rewrite forallb_forall in *.
+  match goal with H : forall x, In x idx -> cell_ok x = true |- _ => rename H into Hidx end.
+  match goal with H : forall x, In x vals -> cell_ok x = true |- _ => rename H into Hvals end.
+  destruct (to_dict_inv cellP cellP idx vals Hidx Hvals) as [Hn Hd].
+  set (f := fun kv : atom * atom => (PA (fst kv), PA (snd kv), th_atom fp (snd kv)) : item).
+  destruct (mapping_total_hashable (map f (to_dict idx vals))) as (dk & Hdk & Hh).
+  - rewrite (atoms_ikeys _ f) by reflexivity. apply cells_nodup_keys; auto. intros kv Hkv. apply Hd; auto.
+  - intros it Hit. apply in_map_iff in Hit. destruct Hit as (kv & <- & Hkv). destruct (Hd kv Hkv) as [Hk Hv].
+    simpl. split; [apply cell_hashable; auto|]. exists (PA (snd kv)). split; [apply th_atom_cell; auto|].
+    apply cell_hashable; auto.
+  - change (to_hashable fp (PSeries n d idx vals)) with
+      (do dk <- hashable_mapping true (map f (to_dict idx vals));
+       Ok (conv (s "Series") (PTuple [PA n; conv (s "dict") dk]))).
+    rewrite Hdk. cbn [bind]. eexists. split; [reflexivity|]. simpl. rewrite Hh.
+    destruct n; simpl in Hwf; try discriminate; reflexivity.
+Qed.
+
+Definition frame_dict (cols : list (atom * (str * list atom))) : list (atom * atom) :=
+  fold_left (fun d c => dict_set d (fst c) (AInt 0)) cols [].
+Definition frame_colval (cols : list (atom * (str * list atom))) (c : atom) : list atom :=
+  (fix last (l : list (atom * (str * list atom))) (acc : list atom) : list atom :=
+     match l with
+     | [] => acc
+     | c' :: t => last t (if atom_eq (fst c') c then snd (snd c') else acc)
+     end) cols [].
+
+Lemma frame_dict_inv : forall cols, (forall c, In c cols -> cell_ok (fst c) = true) ->
+  dict_inv cellP (fun _ => True) (frame_dict cols).
+Proof.
+  intros cols Hc. unfold frame_dict.
+  assert (H0 : dict_inv cellP (fun _ : atom => True) []) by (split; [reflexivity|intros kv []]).
+  revert H0. generalize (@nil (atom * atom)). induction cols as [|c t IH]; intros d Hd; simpl; auto.
+  apply IH; [intros; apply Hc; simpl; auto|]. apply dict_set_inv; auto. apply Hc. simpl. auto.
+Qed.
+
+Lemma frame_colval_cells : forall cols c a,
+  (forall col, In col cols -> forall x, In x (snd (snd col)) -> cell_ok x = true) ->
+  In a (frame_colval cols c) -> cell_ok a = true.
+Proof.
+  intros cols c a Hcols. unfold frame_colval.
+  assert (Hacc : forall x, In x (@nil atom) -> cell_ok x = true) by (intros x []).
+  revert Hacc. generalize (@nil atom). induction cols as [|c' t IH]; intros acc Hacc Hin; simpl in Hin; auto.
+  apply IH in Hin; auto; [intros; eapply Hcols; simpl; eauto|].
+  destruct (atom_eq (fst c') c); auto. intros x Hx. eapply (Hcols c'); simpl; eauto.
+Qed.
+
+Lemma iter_cells : forall fp vs, (forall a, In a vs -> cell_ok a = true) ->
+  hashable_iterable false (map (fun a => (PA a, th_atom fp a)) vs) = Ok (PTuple (map PA vs)).
+Proof.
+  intros fp vs Hc. unfold hashable_iterable. cbn [bind].
+  assert (Hm : mapM (fun e : elem => snd e) (map (fun a => (PA a, th_atom fp a)) vs) = Ok (map PA vs)).
+  { induction vs as [|a t IH]; simpl; auto. rewrite th_atom_cell by (apply Hc; simpl; auto). cbn [bind].
+    rewrite IH by (intros; apply Hc; simpl; auto). reflexivity. }
+  rewrite Hm. reflexivity.
+Qed.
+
+Lemma cells_hashable : forall vs, (forall a, In a vs -> cell_ok a = true) -> forallb py_hashable (map PA vs) = true.
+Proof.
+  intros vs Hc. apply forallb_forall. intros x Hx. apply in_map_iff in Hx. destruct Hx as (a & <- & Ha).
+  simpl. apply cell_hashable. auto.
+Qed.
+
+Theorem frame_key : forall fp cols idx, wf (PFrame cols idx) = true ->
+  exists k, to_hashable fp (PFrame cols idx) = Ok k /\ py_hashable k = true.
+Proof.
+  intros fp cols idx Hwf. simpl in Hwf.
+  apply andb_true_iff in Hwf. destruct Hwf as [Hwf _]. apply andb_true_iff in Hwf. destruct Hwf as [Hcols _].
+  rewrite forallb_forall in Hcols.
+  assert (Hname : forall c, In c cols -> cell_ok (fst c) = true).
+  { intros c Hc. specialize (Hcols c Hc). repeat (apply andb_true_iff in Hcols; destruct Hcols as [Hcols ?]). auto. }
+  assert (Hcells : forall col, In col cols -> forall x, In x (snd (snd col)) -> cell_ok x = true).
+  { intros c Hc x Hx. specialize (Hcols c Hc). repeat (apply andb_true_iff in Hcols; destruct Hcols as [Hcols ?]).
+    match goal with H : forallb cell_ok (snd (snd c)) = true |- _ => rewrite forallb_forall in H; auto end. }
+  destruct (frame_dict_inv cols Hname) as [Hn Hd].
+  set (f := fun kv : atom * atom =>
+              let vs := frame_colval cols (fst kv) in
+              (PA (fst kv), PList (map PA vs),
+               do d <- hashable_iterable false (map (fun a => (PA a, th_atom fp a)) vs);
+               Ok (conv (s "list") d)) : item).
+  destruct (mapping_total_hashable (map f (frame_dict cols))) as (dk & Hdk & Hh).
+  - rewrite (atoms_ikeys _ f) by reflexivity. apply cells_nodup_keys; auto. intros kv Hkv. apply Hd; auto.
+  - intros it Hit. apply in_map_iff in Hit. destruct Hit as (kv & <- & Hkv). destruct (Hd kv Hkv) as [Hk _].
+    unfold f. cbn [fst snd]. split; [apply cell_hashable; auto|].
+    assert (Hvs : forall a, In a (frame_colval cols (fst kv)) -> cell_ok a = true)
+      by (intros a Ha; eapply frame_colval_cells; eauto).
+    rewrite (iter_cells fp _ Hvs). cbn [bind]. eexists. split; [reflexivity|].
+    apply conv_hashable. simpl. apply cells_hashable. auto.
+  - change (to_hashable fp (PFrame cols idx)) with
+      (do dk <- hashable_mapping true (map f (frame_dict cols));
+       Ok (conv (s "DataFrame") (conv (s "dict") dk))).
+    rewrite Hdk. cbn [bind]. eexists. split; [reflexivity|]. apply conv_hashable. apply conv_hashable. exact Hh.
+Qed.
+
+(* every well-formed value - pandas included - gets a hashable key *)
+Theorem key_hashable : forall fp v k, wf v = true -> to_hashable fp v = Ok k -> py_hashable k = true.
+Proof.
+  intros fp. apply key_hashable_gen.
+  - intros n d i x k Hwf Hk. destruct (series_key fp n d i x Hwf) as (k' & Hk' & Hh). congruence.
+  - intros c i k Hwf Hk. destruct (frame_key fp c i Hwf) as (k' & Hk' & Hh). congruence.
+Qed.
+
+(* every well-formed value whose opaque objects can use the pickle fallback - pandas included - gets a key *)
+Theorem total_on_supported : forall fp v, wf v = true -> convertible fp v = true -> exists k, to_hashable fp v = Ok k.
+Proof.
+  intros fp v Hwf Hc. apply total_g; auto.
+  - intros n d i x H. destruct (series_key fp n d i x H) as (k & Hk & _). eauto.
+  - intros c i H. destruct (frame_key fp c i H) as (k & Hk & _). eauto.
+Qed.
+
+(* ================= pandas values: equal values of the same type get equal keys ================= *)
+Lemma cell_eq_cong : forall a a' b b',
+  cell_ok a = true -> cell_ok a' = true -> cell_ok b = true -> cell_ok b' = true ->
+  atom_eq a a' = true -> atom_eq b b' = true -> atom_eq a b = atom_eq a' b'.
+Proof.
+  intros a a' b b' Ca Ca' Cb Cb' Ha Hb.
+  destruct (cell_hashable a Ca) as [Ha1 Ha2], (cell_hashable a' Ca') as [Ha1' Ha2'],
+           (cell_hashable b Cb) as [Hb1 Hb2], (cell_hashable b' Cb') as [Hb1' Hb2'].
+  apply (ckey_atoms a a') in Ha; auto. apply (ckey_atoms b b') in Hb; auto.
+  destruct (atom_eq a b) eqn:E; destruct (atom_eq a' b') eqn:E'; auto.
+  - apply (ckey_atoms a b) in E; auto. assert (H : ckey (PA a') = ckey (PA b')) by congruence.
+    apply (ckey_atoms a' b') in H; auto. congruence.
+  - apply (ckey_atoms a' b') in E'; auto. assert (H : ckey (PA a) = ckey (PA b)) by congruence.
+    apply (ckey_atoms a b) in H; auto. congruence.
+Qed.
+
+Definition kvR (kv kv' : atom * atom) : Prop := atom_eq (fst kv) (fst kv') = true /\ atom_eq (snd kv) (snd kv') = true.
+Definition keys_cells (d : list (atom * atom)) : Prop := forall kv, In kv d -> cell_ok (fst kv) = true.
+
+Lemma dict_set_keys_cells : forall d k v, keys_cells d -> cell_ok k = true -> keys_cells (dict_set d k v).
+Proof.
+  intros d k v Hd Hk kv Hin. destruct (dict_set_in d k v kv Hin) as [[H|H] _]; [|subst; auto].
+  apply in_map_iff in H. destruct H as (kv' & <- & Hin'). auto.
+Qed.
+
+Lemma dict_set_cong : forall d d' k k' v v',
+  Forall2 kvR d d' -> keys_cells d -> keys_cells d' -> cell_ok k = true -> cell_ok k' = true ->
+  atom_eq k k' = true -> atom_eq v v' = true -> Forall2 kvR (dict_set d k v) (dict_set d' k' v').
+Proof.
+  intros d d' k k' v v' HF. revert k k' v v'.
+  induction HF as [|[k1 v1] [k1' v1'] d d' [Hk1 Hv1] HF IH]; intros k k' v v' Hd Hd' Ck Ck' Hk Hv; simpl.
+  - repeat constructor; auto.
+  - simpl in Hk1, Hv1.
+    assert (C1 : cell_ok k1 = true) by (apply (Hd (k1, v1)); simpl; auto).
+    assert (C1' : cell_ok k1' = true) by (apply (Hd' (k1', v1')); simpl; auto).
+    rewrite <- (cell_eq_cong k1 k1' k k' C1 C1' Ck Ck' Hk1 Hk).
+    destruct (atom_eq k1 k).
+    + constructor; auto. split; auto.
+    + constructor; [split; auto|]. apply IH; auto; intros kv Hin; [apply Hd|apply Hd']; simpl; auto.
+Qed.
+
+Lemma list_eqb_Forall2 {A} (eqb : A -> A -> bool) : forall l l', list_eqb eqb l l' = true ->
+  Forall2 (fun x y => eqb x y = true) l l'.
+Proof.
+  induction l as [|x t IH]; destruct l' as [|y t']; simpl; intros H; try discriminate; constructor.
+  - apply andb_true_iff in H. tauto.
+  - apply IH. apply andb_true_iff in H. tauto.
+Qed.
+
+Lemma fold_dict_cong : forall l l', Forall2 kvR l l' ->
+  (forall kv, In kv l -> cell_ok (fst kv) = true) -> (forall kv, In kv l' -> cell_ok (fst kv) = true) ->
+  forall d d', Forall2 kvR d d' -> keys_cells d -> keys_cells d' ->
+  Forall2 kvR (fold_left (fun d kv => dict_set d (fst kv) (snd kv)) l d)
+              (fold_left (fun d kv => dict_set d (fst kv) (snd kv)) l' d').
+Proof.
+  induction 1 as [|kv kv' l l' [Hkk Hvv] HC IH]; intros Hk Hk' d d' HF Kd Kd'; simpl; auto.
+  apply IH.
+  - intros; apply Hk; simpl; auto.
+  - intros; apply Hk'; simpl; auto.
+  - apply dict_set_cong; auto; [apply Hk|apply Hk']; simpl; auto.
+  - apply dict_set_keys_cells; auto. apply Hk. simpl. auto.
+  - apply dict_set_keys_cells; auto. apply Hk'. simpl. auto.
+Qed.
+
+Lemma to_dict_cong : forall idx idx' vals vals',
+  (forall a, In a idx -> cell_ok a = true) -> (forall a, In a idx' -> cell_ok a = true) ->
+  list_eqb atom_eq idx idx' = true -> list_eqb atom_eq vals vals' = true ->
+  Forall2 kvR (to_dict idx vals) (to_dict idx' vals').
+Proof.
+  intros idx idx' vals vals' Hc Hc' Hi Hv. unfold to_dict.
+  apply list_eqb_Forall2 in Hi. apply list_eqb_Forall2 in Hv.
+  assert (HC : Forall2 kvR (combine idx vals) (combine idx' vals')).
+  { clear Hc Hc'. revert vals vals' Hv. induction Hi as [|a a' idx idx' Ha Hi IH]; intros vals vals' Hv; simpl; [constructor|].
+    destruct Hv as [|b b' vals vals' Hb Hv]; [constructor|]. constructor; [split; auto|]. apply IH; auto. }
+  apply fold_dict_cong; auto.
+  - intros [k v] H. apply Hc. eapply in_combine_l; eauto.
+  - intros [k v] H. apply Hc'. eapply in_combine_l; eauto.
+  - intros kv [].
+  - intros kv [].
+Qed.
+
+Definition lift (kv : atom * atom) : pyval * pyval := (PA (fst kv), PA (snd kv)).
+
+Lemma series_items : forall fp (D : list (atom * atom)),
+  map (fun kv : atom * atom => (PA (fst kv), PA (snd kv), th_atom fp (snd kv)) : item) D = mk_items fp (map lift D).
+Proof.
+  intros fp D. unfold mk_items. rewrite map_map. apply map_ext. intros kv. unfold lift. cbn [fst snd].
+  rewrite th_atom_eq. reflexivity.
+Qed.
+
+Lemma lift_wf : forall D, dict_inv cellP cellP D -> wf (PDict (map lift D)) = true.
+Proof.
+  intros D [Hn Hd]. cbn [wf]. rewrite andb_true_r. apply andb_true_iff. split; [apply andb_true_iff; split|].
+  - apply forallb_forall. intros kv Hkv. apply in_map_iff in Hkv. destruct Hkv as (a & <- & Ha).
+    destruct (Hd a Ha) as [H1 H2]. unfold lift. cbn [fst snd].
+    destruct (cell_hashable _ H1) as [_ W1], (cell_hashable _ H2) as [_ W2]. rewrite W1, W2. reflexivity.
+  - apply forallb_forall. intros kv Hkv. apply in_map_iff in Hkv. destruct Hkv as (a & <- & Ha).
+    destruct (Hd a Ha) as [H1 _]. unfold lift. cbn [fst]. simpl. apply cell_hashable. auto.
+  - rewrite map_map. cbn [lift fst]. rewrite <- (map_map fst PA). apply atoms_nodup_rel. exact Hn.
+Qed.
+
+Lemma lift_rel_dict : forall D D', Forall2 kvR D D' -> rel_dict true (map lift D) (map lift D') = true.
+Proof.
+  intros D D' HF. unfold rel_dict. apply andb_true_iff. split.
+  - apply Nat.eqb_eq. rewrite !map_length. eapply Forall2_len; eauto.
+  - apply forallb_forall. intros kv Hkv. apply in_map_iff in Hkv. destruct Hkv as (a & <- & Ha).
+    destruct (Forall2_in_l _ _ _ HF a Ha) as (b & Hb & [H1 H2]). apply existsb_exists. exists (lift b). split.
+    + apply in_map. auto.
+    + unfold lift. cbn [fst snd]. rewrite !rel_atom_l, H1, H2. reflexivity.
+Qed.
+
+Lemma cells_keq : forall fp a b, cell_ok a = true -> cell_ok b = true -> rel true (PA a) (PA b) = true ->
+  keq fp (PA a) (PA b).
+Proof.
+  intros fp a b Ca Cb Hr k k' Hk Hk'. rewrite th_atom_eq in Hk, Hk'. rewrite th_atom_cell in Hk, Hk' by auto.
+  inversion Hk; inversion Hk'; subst. rewrite rel_atom_l in *. exact Hr.
+Qed.
+
+Theorem series_eq : forall fp n d i x w, wf (PSeries n d i x) = true -> wf w = true ->
+  rel true (PSeries n d i x) w = true -> keq fp (PSeries n d i x) w.
+Proof.
+  intros fp n d i x w Hwf Hwf' Hrel k k' Hk Hk'.
+  destruct w as [| | | |n' d' i' x'|]; try discriminate.
+  simpl in Hrel. apply andb_true_iff in Hrel. destruct Hrel as [Hrel Hx]. apply andb_true_iff in Hrel.
+  destruct Hrel as [Hrel Hi]. apply andb_true_iff in Hrel. destruct Hrel as [Hn Hd].
+  assert (Hcells : forall n d i x, wf (PSeries n d i x) = true ->
+            (forall a, In a i -> cell_ok a = true) /\ (forall a, In a x -> cell_ok a = true)).
+  { clear. intros n d i x H. simpl in H. repeat (apply andb_true_iff in H; destruct H as [H ?]).
+    rewrite forallb_forall in *. split; auto. }
+  destruct (Hcells _ _ _ _ Hwf) as [Ci Cx]. destruct (Hcells _ _ _ _ Hwf') as [Ci' Cx'].
+  assert (Inv := to_dict_inv cellP cellP i x Ci Cx). assert (Inv' := to_dict_inv cellP cellP i' x' Ci' Cx').
+  assert (HF := to_dict_cong i i' x x' Ci Ci' Hi Hx).
+  change (to_hashable fp (PSeries n d i x)) with
+    (do dk <- hashable_mapping true (map (fun kv : atom * atom => (PA (fst kv), PA (snd kv), th_atom fp (snd kv)) : item)
+                                         (to_dict i x));
+     Ok (conv (s "Series") (PTuple [PA n; conv (s "dict") dk]))) in Hk.
+  change (to_hashable fp (PSeries n' d' i' x')) with
+    (do dk <- hashable_mapping true (map (fun kv : atom * atom => (PA (fst kv), PA (snd kv), th_atom fp (snd kv)) : item)
+                                         (to_dict i' x'));
+     Ok (conv (s "Series") (PTuple [PA n'; conv (s "dict") dk]))) in Hk'.
+  rewrite series_items in Hk, Hk'.
+  destruct (hashable_mapping true (mk_items fp (map lift (to_dict i x)))) as [dk|e] eqn:Hdk; [|discriminate].
+  destruct (hashable_mapping true (mk_items fp (map lift (to_dict i' x')))) as [dk'|e] eqn:Hdk'; [|discriminate].
+  cbn [bind] in Hk, Hk'. inversion Hk; inversion Hk'; subst.
+  rewrite conv_rel, str_eqb_refl. cbn [andb]. rewrite rel_tuple. cbn [rel_list].
+  rewrite rel_atom_l, Hn. cbn [andb]. rewrite conv_rel, str_eqb_refl. cbn [andb]. rewrite andb_true_r.
+  eapply (map_canon fp (map lift (to_dict i x)) (map lift (to_dict i' x'))); eauto using lift_wf, lift_rel_dict.
+  intros kv kv' Hkv Hkv' Hr. apply in_map_iff in Hkv. destruct Hkv as (a & <- & Ha).
+  apply in_map_iff in Hkv'. destruct Hkv' as (b & <- & Hb). unfold lift in *. cbn [snd] in *.
+  destruct Inv as [_ Hd1], Inv' as [_ Hd2]. apply cells_keq; auto; [apply Hd1|apply Hd2]; auto.
+Qed.
+
+Definition colT := (atom * (str * list atom))%type.
+Definition colR (a b : colT) : Prop :=
+  atom_eq (fst a) (fst b) = true /\ list_eqb atom_eq (snd (snd a)) (snd (snd b)) = true.
+
+Lemma frame_dict_fold : forall cols d,
+  fold_left (fun d (c : colT) => dict_set d (fst c) (AInt 0)) cols d =
+  fold_left (fun d kv => dict_set d (fst kv) (snd kv)) (map (fun c : colT => (fst c, AInt 0)) cols) d.
+Proof. induction cols as [|c t IH]; intros d; simpl; auto. Qed.
+
+Lemma frame_dict_cong : forall cols cols', Forall2 colR cols cols' ->
+  (forall c, In c cols -> cell_ok (fst c) = true) -> (forall c, In c cols' -> cell_ok (fst c) = true) ->
+  Forall2 kvR (frame_dict cols) (frame_dict cols').
+Proof.
+  intros cols cols' HF Hc Hc'. unfold frame_dict. rewrite !frame_dict_fold. apply fold_dict_cong.
+  - clear Hc Hc'. induction HF as [|a b l l' [H1 _] HF IH]; simpl; constructor; auto. split; auto.
+  - intros kv H. apply in_map_iff in H. destruct H as (c & <- & Hin). simpl. auto.
+  - intros kv H. apply in_map_iff in H. destruct H as (c & <- & Hin). simpl. auto.
+  - constructor.
+  - intros kv [].
+  - intros kv [].
+Qed.
+
+Lemma frame_colval_cong : forall cols cols' c c', Forall2 colR cols cols' ->
+  (forall col, In col cols -> cell_ok (fst col) = true) -> (forall col, In col cols' -> cell_ok (fst col) = true) ->
+  cell_ok c = true -> cell_ok c' = true -> atom_eq c c' = true ->
+  list_eqb atom_eq (frame_colval cols c) (frame_colval cols' c') = true.
+Proof.
+  intros cols cols' c c' HF Hc Hc' Cc Cc' Hcc. unfold frame_colval.
+  assert (H0 : list_eqb atom_eq (@nil atom) (@nil atom) = true) by reflexivity.
+  revert H0. generalize (@nil atom) at 1 3. generalize (@nil atom).
+  induction HF as [|a b l l' [H1 H2] HF IH]; intros acc' acc Hacc; simpl; auto.
+  apply IH; [intros; apply Hc; simpl; auto|intros; apply Hc'; simpl; auto|].
+  rewrite <- (cell_eq_cong (fst a) (fst b) c c'); auto; [|apply Hc; simpl; auto|apply Hc'; simpl; auto].
+  destruct (atom_eq (fst a) c); auto.
+Qed.
+
+Definition liftF (cols : list colT) (kv : atom * atom) : pyval * pyval :=
+  (PA (fst kv), PList (map PA (frame_colval cols (fst kv)))).
+
+Lemma th_list_cells : forall fp vs,
+  to_hashable fp (PList (map PA vs)) =
+  (do d <- hashable_iterable false (map (fun a => (PA a, th_atom fp a)) vs); Ok (conv (s "list") d)).
+Proof.
+  intros fp vs. rewrite th_seq by reflexivity. unfold seq_body. rewrite map_map.
+  replace (map (fun x : atom => (PA x, to_hashable fp (PA x))) vs) with (map (fun a => (PA a, th_atom fp a)) vs).
+  - reflexivity.
+  - apply map_ext. intros a. rewrite th_atom_eq. reflexivity.
+Qed.
+
+Lemma frame_items : forall fp cols (D : list (atom * atom)),
+  map (fun kv : atom * atom =>
+         let vs := frame_colval cols (fst kv) in
+         (PA (fst kv), PList (map PA vs),
+          do d <- hashable_iterable false (map (fun a => (PA a, th_atom fp a)) vs); Ok (conv (s "list") d)) : item) D
+  = mk_items fp (map (liftF cols) D).
+Proof.
+  intros fp cols D. unfold mk_items. rewrite map_map. apply map_ext. intros kv. unfold liftF. cbn [fst snd].
+  rewrite th_list_cells. reflexivity.
+Qed.
+
+Lemma cells_wf : forall vs, (forall a, In a vs -> cell_ok a = true) -> forallb wf (map PA vs) = true.
+Proof.
+  intros vs Hc. apply forallb_forall. intros x Hx. apply in_map_iff in Hx. destruct Hx as (a & <- & Ha).
+  apply cell_hashable. auto.
+Qed.
+
+Lemma liftF_wf : forall cols D,
+  (forall col, In col cols -> forall x, In x (snd (snd col)) -> cell_ok x = true) ->
+  dict_inv cellP (fun _ => True) D -> wf (PDict (map (liftF cols) D)) = true.
+Proof.
+  intros cols D Hcells [Hn Hd]. cbn [wf]. rewrite andb_true_r. apply andb_true_iff. split; [apply andb_true_iff; split|].
+  - apply forallb_forall. intros kv Hkv. apply in_map_iff in Hkv. destruct Hkv as (a & <- & Ha).
+    destruct (Hd a Ha) as [H1 _]. unfold liftF. cbn [fst snd].
+    destruct (cell_hashable _ H1) as [_ W1]. rewrite W1. cbn [andb wf]. rewrite andb_true_r.
+    apply cells_wf. intros x Hx. eapply frame_colval_cells; eauto.
+  - apply forallb_forall. intros kv Hkv. apply in_map_iff in Hkv. destruct Hkv as (a & <- & Ha).
+    destruct (Hd a Ha) as [H1 _]. unfold liftF. cbn [fst]. simpl. apply cell_hashable. auto.
+  - rewrite map_map. cbn [liftF fst]. rewrite <- (map_map fst PA). apply atoms_nodup_rel. exact Hn.
+Qed.
+
+Lemma atoms_rel_list : forall st vs vs', list_eqb atom_eq vs vs' = true -> rel_list st (map PA vs) (map PA vs') = true.
+Proof.
+  induction vs as [|a t IH]; destruct vs' as [|b t']; simpl; intros H; try discriminate; auto.
+  apply andb_true_iff in H. destruct H as [H1 H2]. rewrite H1. simpl. apply IH. exact H2.
+Qed.
+
+Theorem frame_eq : forall fp c i w, wf (PFrame c i) = true -> wf w = true ->
+  rel true (PFrame c i) w = true -> keq fp (PFrame c i) w.
+Proof.
+  intros fp cols i w Hwf Hwf' Hrel k k' Hk Hk'.
+  destruct w as [| | | | |cols' i']; try discriminate.
+  simpl in Hrel. apply andb_true_iff in Hrel. destruct Hrel as [Hcols _].
+  assert (Hparts : forall cols i, wf (PFrame cols i) = true ->
+            (forall c, In c cols -> cell_ok (fst c) = true)
+            /\ (forall col, In col cols -> forall x, In x (snd (snd col)) -> cell_ok x = true)).
+  { clear. intros cols i H. simpl in H. apply andb_true_iff in H. destruct H as [H _].
+    apply andb_true_iff in H. destruct H as [H _]. rewrite forallb_forall in H. split.
+    - intros c Hc. specialize (H c Hc). repeat (apply andb_true_iff in H; destruct H as [H ?]). auto.
+    - intros c Hc x Hx. specialize (H c Hc). repeat (apply andb_true_iff in H; destruct H as [H ?]).
+      match goal with H : forallb cell_ok (snd (snd c)) = true |- _ => rewrite forallb_forall in H; auto end. }
+  destruct (Hparts _ _ Hwf) as [Hname Hcells]. destruct (Hparts _ _ Hwf') as [Hname' Hcells'].
+  assert (HFc : Forall2 colR cols cols').
+  { apply list_eqb_Forall2 in Hcols. clear -Hcols. induction Hcols as [|a b l l' H HF IH]; constructor; auto.
+    apply andb_true_iff in H. destruct H as [H H3]. apply andb_true_iff in H. destruct H as [H1 H2]. split; auto. }
+  assert (Inv := frame_dict_inv cols Hname). assert (Inv' := frame_dict_inv cols' Hname').
+  assert (HF := frame_dict_cong cols cols' HFc Hname Hname').
+  change (to_hashable fp (PFrame cols i)) with
+    (do dk <- hashable_mapping true
+                (map (fun kv : atom * atom =>
+                        let vs := frame_colval cols (fst kv) in
+                        (PA (fst kv), PList (map PA vs),
+                         do d <- hashable_iterable false (map (fun a => (PA a, th_atom fp a)) vs);
+                         Ok (conv (s "list") d)) : item) (frame_dict cols));
+     Ok (conv (s "DataFrame") (conv (s "dict") dk))) in Hk.
+  change (to_hashable fp (PFrame cols' i')) with
+    (do dk <- hashable_mapping true
+                (map (fun kv : atom * atom =>
+                        let vs := frame_colval cols' (fst kv) in
+                        (PA (fst kv), PList (map PA vs),
+                         do d <- hashable_iterable false (map (fun a => (PA a, th_atom fp a)) vs);
+                         Ok (conv (s "list") d)) : item) (frame_dict cols'));
+     Ok (conv (s "DataFrame") (conv (s "dict") dk))) in Hk'.
+  rewrite frame_items in Hk, Hk'.
+  destruct (hashable_mapping true (mk_items fp (map (liftF cols) (frame_dict cols)))) as [dk|e] eqn:Hdk; [|discriminate].
+  destruct (hashable_mapping true (mk_items fp (map (liftF cols') (frame_dict cols')))) as [dk'|e] eqn:Hdk'; [|discriminate].
+  cbn [bind] in Hk, Hk'. inversion Hk; inversion Hk'; subst.
+  rewrite !conv_rel, !str_eqb_refl. cbn [andb].
+  destruct Inv as [Hn Hd1]. destruct Inv' as [Hn' Hd2].
+  eapply (map_canon fp (map (liftF cols) (frame_dict cols)) (map (liftF cols') (frame_dict cols'))); eauto.
+  - apply liftF_wf; auto. split; auto.
+  - apply liftF_wf; auto. split; auto.
+  - unfold rel_dict. apply andb_true_iff. split.
+    + apply Nat.eqb_eq. rewrite !map_length. eapply Forall2_len; eauto.
+    + apply forallb_forall. intros kv Hkv. apply in_map_iff in Hkv. destruct Hkv as (a & <- & Ha).
+      destruct (Forall2_in_l _ _ _ HF a Ha) as (b & Hb & [H1 _]). apply existsb_exists. exists (liftF cols' b). split.
+      * apply in_map. auto.
+      * unfold liftF. cbn [fst snd]. rewrite rel_atom_l, H1. cbn [andb]. rewrite rel_seq_unfold. cbn [seqkind_eqb andb].
+        apply atoms_rel_list. apply frame_colval_cong; auto; [apply (Hd1 a Ha)|apply (Hd2 b Hb)].
+  - intros kv kv' Hkv Hkv' Hr. apply in_map_iff in Hkv. destruct Hkv as (a & <- & Ha).
+    apply in_map_iff in Hkv'. destruct Hkv' as (b & <- & Hb). unfold liftF in *. cbn [snd] in *.
+    intros k0 k0' Hk0 Hk0'. rewrite th_list_cells in Hk0, Hk0'.
+    rewrite iter_cells in Hk0 by (intros x Hx; exact (frame_colval_cells cols (fst a) x Hcells Hx)).
+    rewrite iter_cells in Hk0' by (intros x Hx; exact (frame_colval_cells cols' (fst b) x Hcells' Hx)).
+    cbn [bind] in Hk0, Hk0'. inversion Hk0; inversion Hk0'; subst.
+    rewrite conv_rel, str_eqb_refl. cbn [andb]. rewrite rel_tuple.
+    rewrite rel_seq_unfold in Hr. cbn [seqkind_eqb andb] in Hr.
+    apply rel_list_atomic; auto. apply forallb_forall. intros y Hy. apply in_map_iff in Hy. destruct Hy as (z & <- & _).
+    reflexivity.
+Qed.
+
+(* equal values of the same type get equal keys - FULL: every pair of well-formed values, pandas included *)
+Theorem eq_implies_key_eq : forall fp v w k k',
+  wf v = true -> wf w = true ->
+  py_same v w = true -> to_hashable fp v = Ok k -> to_hashable fp w = Ok k' -> py_eq k k' = true.
+Proof.
+  intros fp v w k k' H1 H2 Hs Hk Hk'.
+  exact (eq_implies_key_eq_g fp (series_eq fp) (frame_eq fp) v w H1 H2 Hs k k' Hk Hk').
 Qed.
